@@ -53,8 +53,28 @@ module Coq__1 = struct
 end
 include Coq__1
 
+(** val sub : nat -> nat -> nat **)
+
+let rec sub n0 m =
+  match n0 with
+  | O -> n0
+  | S k -> (match m with
+            | O -> n0
+            | S l -> sub k l)
+
 module Nat =
  struct
+  (** val eqb : nat -> nat -> bool **)
+
+  let rec eqb n0 m =
+    match n0 with
+    | O -> (match m with
+            | O -> true
+            | S _ -> false)
+    | S n' -> (match m with
+               | O -> false
+               | S m' -> eqb n' m')
+
   (** val leb : nat -> nat -> bool **)
 
   let rec leb n0 m =
@@ -866,6 +886,19 @@ let rec beq a b =
      | [] -> false
      | y :: b' -> (&&) (N.eqb x y) (beq a' b'))
 
+(** val be_dec_acc : n -> bytes -> n **)
+
+let rec be_dec_acc acc = function
+| [] -> acc
+| x :: r ->
+  be_dec_acc
+    (N.add (N.mul acc (Npos (XO (XO (XO (XO (XO (XO (XO (XO XH)))))))))) x) r
+
+(** val be_dec : bytes -> n **)
+
+let be_dec b =
+  be_dec_acc N0 b
+
 (** val be_enc : nat -> n -> bytes **)
 
 let rec be_enc k n0 =
@@ -929,11 +962,42 @@ let holds g x =
   | OpEQ -> Z.eqb x g.glit
   | OpNE -> negb (Z.eqb x g.glit)
 
+(** val sw : z list list list -> nat -> nat -> z list **)
+
+let sw l i j =
+  nth j (nth i l []) []
+
+(** val zmem : z -> z list -> bool **)
+
+let rec zmem x = function
+| [] -> false
+| y :: r -> (||) (Z.eqb x y) (zmem x r)
+
 type 'a res =
 | Ok of 'a
 | Err of n
 | Panic
 | OutOfFuel
+
+(** val e_short : n **)
+
+let e_short =
+  Npos XH
+
+(** val e_badlen : n **)
+
+let e_badlen =
+  Npos (XO XH)
+
+(** val e_attr_short : n **)
+
+let e_attr_short =
+  Npos (XI XH)
+
+(** val e_attr_len : n **)
+
+let e_attr_len =
+  Npos (XO (XO XH))
 
 (** val e_attr_big : n **)
 
@@ -944,6 +1008,11 @@ let e_attr_big =
 
 let e_pkt_big =
   Npos (XO (XI XH))
+
+(** val e_unknown_code : n **)
+
+let e_unknown_code =
+  Npos (XI (XI XH))
 
 (** val remove_at : nat -> 'a1 list -> 'a1 list **)
 
@@ -1047,6 +1116,89 @@ let g_Attributes_encodeTo =
     EmptyString)))))))))))))))))))))))))))))))))))))); gop = OpGT; glit =
     (Zpos (XI (XO (XI (XI (XI (XI (XI XH)))))))) } :: []))
 
+(** val g_IsAuthenticRequest : guard list **)
+
+let g_IsAuthenticRequest =
+  { gexpr = (String ((Ascii (false, false, true, true, false, true, true,
+    false)), (String ((Ascii (true, false, true, false, false, true, true,
+    false)), (String ((Ascii (false, true, true, true, false, true, true,
+    false)), (String ((Ascii (false, false, false, true, false, true, false,
+    false)), (String ((Ascii (false, true, false, false, true, true, true,
+    false)), (String ((Ascii (true, false, true, false, false, true, true,
+    false)), (String ((Ascii (true, false, false, false, true, true, true,
+    false)), (String ((Ascii (true, false, true, false, true, true, true,
+    false)), (String ((Ascii (true, false, true, false, false, true, true,
+    false)), (String ((Ascii (true, true, false, false, true, true, true,
+    false)), (String ((Ascii (false, false, true, false, true, true, true,
+    false)), (String ((Ascii (true, false, false, true, false, true, false,
+    false)), EmptyString)))))))))))))))))))))))); gop = OpLT; glit = (Zpos
+    (XO (XO (XI (XO XH))))) } :: []
+
+(** val sW_IsAuthenticRequest : z list list list **)
+
+let sW_IsAuthenticRequest =
+  (((Zpos XH) :: ((Zpos (XO (XO (XI XH)))) :: [])) :: (((Zpos (XO (XO
+    XH))) :: ((Zpos (XO (XO (XO (XI (XO XH)))))) :: ((Zpos (XI (XI (XO (XI
+    (XO XH)))))) :: []))) :: ([] :: []))) :: []
+
+(** val g_IsAuthenticResponse : guard list **)
+
+let g_IsAuthenticResponse =
+  { gexpr = (String ((Ascii (false, false, true, true, false, true, true,
+    false)), (String ((Ascii (true, false, true, false, false, true, true,
+    false)), (String ((Ascii (false, true, true, true, false, true, true,
+    false)), (String ((Ascii (false, false, false, true, false, true, false,
+    false)), (String ((Ascii (false, true, false, false, true, true, true,
+    false)), (String ((Ascii (true, false, true, false, false, true, true,
+    false)), (String ((Ascii (true, true, false, false, true, true, true,
+    false)), (String ((Ascii (false, false, false, false, true, true, true,
+    false)), (String ((Ascii (true, true, true, true, false, true, true,
+    false)), (String ((Ascii (false, true, true, true, false, true, true,
+    false)), (String ((Ascii (true, true, false, false, true, true, true,
+    false)), (String ((Ascii (true, false, true, false, false, true, true,
+    false)), (String ((Ascii (true, false, false, true, false, true, false,
+    false)), EmptyString)))))))))))))))))))))))))); gop = OpLT; glit = (Zpos
+    (XO (XO (XI (XO XH))))) } :: ({ gexpr = (String ((Ascii (false, false,
+    true, true, false, true, true, false)), (String ((Ascii (true, false,
+    true, false, false, true, true, false)), (String ((Ascii (false, true,
+    true, true, false, true, true, false)), (String ((Ascii (false, false,
+    false, true, false, true, false, false)), (String ((Ascii (false, true,
+    false, false, true, true, true, false)), (String ((Ascii (true, false,
+    true, false, false, true, true, false)), (String ((Ascii (true, false,
+    false, false, true, true, true, false)), (String ((Ascii (true, false,
+    true, false, true, true, true, false)), (String ((Ascii (true, false,
+    true, false, false, true, true, false)), (String ((Ascii (true, true,
+    false, false, true, true, true, false)), (String ((Ascii (false, false,
+    true, false, true, true, true, false)), (String ((Ascii (true, false,
+    false, true, false, true, false, false)),
+    EmptyString)))))))))))))))))))))))); gop = OpLT; glit = (Zpos (XO (XO (XI
+    (XO XH))))) } :: ({ gexpr = (String ((Ascii (false, false, true, true,
+    false, true, true, false)), (String ((Ascii (true, false, true, false,
+    false, true, true, false)), (String ((Ascii (false, true, true, true,
+    false, true, true, false)), (String ((Ascii (false, false, false, true,
+    false, true, false, false)), (String ((Ascii (true, true, false, false,
+    true, true, true, false)), (String ((Ascii (true, false, true, false,
+    false, true, true, false)), (String ((Ascii (true, true, false, false,
+    false, true, true, false)), (String ((Ascii (false, true, false, false,
+    true, true, true, false)), (String ((Ascii (true, false, true, false,
+    false, true, true, false)), (String ((Ascii (false, false, true, false,
+    true, true, true, false)), (String ((Ascii (true, false, false, true,
+    false, true, false, false)), EmptyString)))))))))))))))))))))); gop =
+    OpEQ; glit = Z0 } :: []))
+
+(** val sW_Packet_Encode : z list list list **)
+
+let sW_Packet_Encode =
+  (((Zpos XH) :: ((Zpos (XO (XO (XI XH)))) :: [])) :: (((Zpos (XO
+    XH)) :: ((Zpos (XI XH)) :: ((Zpos (XO (XO XH))) :: ((Zpos (XI (XO
+    XH))) :: ((Zpos (XI (XI (XO XH)))) :: ((Zpos (XO (XO (XO (XI (XO
+    XH)))))) :: ((Zpos (XI (XO (XO (XI (XO XH)))))) :: ((Zpos (XO (XI (XO (XI
+    (XO XH)))))) :: ((Zpos (XI (XI (XO (XI (XO XH)))))) :: ((Zpos (XO (XO (XI
+    (XI (XO XH)))))) :: ((Zpos (XI (XO (XI (XI (XO
+    XH)))))) :: []))))))))))) :: ([] :: []))) :: ((((Zpos (XO (XO
+    XH))) :: ((Zpos (XO (XO (XO (XI (XO XH)))))) :: ((Zpos (XI (XI (XO (XI
+    (XO XH)))))) :: []))) :: ([] :: [])) :: [])
+
 (** val g_Packet_MarshalBinary : guard list **)
 
 let g_Packet_MarshalBinary =
@@ -1057,6 +1209,73 @@ let g_Packet_MarshalBinary =
     false)), EmptyString)))))))); gop = OpGT; glit = (Zpos (XO (XO (XO (XO
     (XO (XO (XO (XO (XO (XO (XO (XO XH))))))))))))) } :: []
 
+(** val g_Parse : guard list **)
+
+let g_Parse =
+  { gexpr = (String ((Ascii (false, false, true, true, false, true, true,
+    false)), (String ((Ascii (true, false, true, false, false, true, true,
+    false)), (String ((Ascii (false, true, true, true, false, true, true,
+    false)), (String ((Ascii (false, false, false, true, false, true, false,
+    false)), (String ((Ascii (false, true, false, false, false, true, true,
+    false)), (String ((Ascii (true, false, false, true, false, true, false,
+    false)), EmptyString)))))))))))); gop = OpLT; glit = (Zpos (XO (XO (XI
+    (XO XH))))) } :: ({ gexpr = (String ((Ascii (false, false, true, true,
+    false, true, true, false)), (String ((Ascii (true, false, true, false,
+    false, true, true, false)), (String ((Ascii (false, true, true, true,
+    false, true, true, false)), (String ((Ascii (true, true, true, false,
+    false, true, true, false)), (String ((Ascii (false, false, true, false,
+    true, true, true, false)), (String ((Ascii (false, false, false, true,
+    false, true, true, false)), EmptyString)))))))))))); gop = OpLT; glit =
+    (Zpos (XO (XO (XI (XO XH))))) } :: ({ gexpr = (String ((Ascii (false,
+    false, true, true, false, true, true, false)), (String ((Ascii (true,
+    false, true, false, false, true, true, false)), (String ((Ascii (false,
+    true, true, true, false, true, true, false)), (String ((Ascii (true,
+    true, true, false, false, true, true, false)), (String ((Ascii (false,
+    false, true, false, true, true, true, false)), (String ((Ascii (false,
+    false, false, true, false, true, true, false)), EmptyString))))))))))));
+    gop = OpGT; glit = (Zpos (XO (XO (XO (XO (XO (XO (XO (XO (XO (XO (XO (XO
+    XH))))))))))))) } :: []))
+
+(** val g_ParseAttributes : guard list **)
+
+let g_ParseAttributes =
+  { gexpr = (String ((Ascii (false, false, true, true, false, true, true,
+    false)), (String ((Ascii (true, false, true, false, false, true, true,
+    false)), (String ((Ascii (false, true, true, true, false, true, true,
+    false)), (String ((Ascii (false, false, false, true, false, true, false,
+    false)), (String ((Ascii (false, true, false, false, false, true, true,
+    false)), (String ((Ascii (true, false, false, true, false, true, false,
+    false)), EmptyString)))))))))))); gop = OpGT; glit = Z0 } :: ({ gexpr =
+    (String ((Ascii (false, false, true, true, false, true, true, false)),
+    (String ((Ascii (true, false, true, false, false, true, true, false)),
+    (String ((Ascii (false, true, true, true, false, true, true, false)),
+    (String ((Ascii (false, false, false, true, false, true, false, false)),
+    (String ((Ascii (false, true, false, false, false, true, true, false)),
+    (String ((Ascii (true, false, false, true, false, true, false, false)),
+    EmptyString)))))))))))); gop = OpLT; glit = (Zpos (XO
+    XH)) } :: ({ gexpr = (String ((Ascii (false, false, true, true, false,
+    true, true, false)), (String ((Ascii (true, false, true, false, false,
+    true, true, false)), (String ((Ascii (false, true, true, true, false,
+    true, true, false)), (String ((Ascii (true, true, true, false, false,
+    true, true, false)), (String ((Ascii (false, false, true, false, true,
+    true, true, false)), (String ((Ascii (false, false, false, true, false,
+    true, true, false)), EmptyString)))))))))))); gop = OpLT; glit = (Zpos
+    (XO XH)) } :: ({ gexpr = (String ((Ascii (false, false, true, true,
+    false, true, true, false)), (String ((Ascii (true, false, true, false,
+    false, true, true, false)), (String ((Ascii (false, true, true, true,
+    false, true, true, false)), (String ((Ascii (true, true, true, false,
+    false, true, true, false)), (String ((Ascii (false, false, true, false,
+    true, true, true, false)), (String ((Ascii (false, false, false, true,
+    false, true, true, false)), EmptyString)))))))))))); gop = OpGT; glit =
+    (Zpos (XI (XI (XI (XI (XI (XI (XI XH)))))))) } :: ({ gexpr = (String
+    ((Ascii (false, false, true, true, false, true, true, false)), (String
+    ((Ascii (true, false, true, false, false, true, true, false)), (String
+    ((Ascii (false, true, true, true, false, true, true, false)), (String
+    ((Ascii (true, true, true, false, false, true, true, false)), (String
+    ((Ascii (false, false, true, false, true, true, true, false)), (String
+    ((Ascii (false, false, false, true, false, true, true, false)),
+    EmptyString)))))))))))); gop = OpGT; glit = (Zpos (XO XH)) } :: []))))
+
 type avp = { atype : z; aval : bytes }
 
 type attrs = avp list
@@ -1065,6 +1284,43 @@ type attrs = avp list
 
 let zlen l =
   Z.of_nat (length l)
+
+(** val parse_attrs_f : nat -> bytes -> attrs res **)
+
+let rec parse_attrs_f fuel b =
+  match fuel with
+  | O -> OutOfFuel
+  | S f ->
+    if negb (holds (gd g_ParseAttributes O) (zlen b))
+    then Ok []
+    else if holds (gd g_ParseAttributes (S O)) (zlen b)
+         then Err e_attr_short
+         else (match b with
+               | [] -> Panic
+               | t :: l0 ->
+                 (match l0 with
+                  | [] -> Panic
+                  | l :: _ ->
+                    let len = Z.of_N l in
+                    if (||)
+                         ((||) (Z.gtb len (zlen b))
+                           (holds (gd g_ParseAttributes (S (S O))) len))
+                         (holds (gd g_ParseAttributes (S (S (S O)))) len)
+                    then Err e_attr_len
+                    else let n0 = Z.to_nat len in
+                         if (||) (Nat.ltb n0 (S (S O)))
+                              (Nat.ltb (length b) n0)
+                         then Panic
+                         else (match parse_attrs_f f (skipn n0 b) with
+                               | Ok tl ->
+                                 Ok ({ atype = (Z.of_N t); aval =
+                                   (skipn (S (S O)) (firstn n0 b)) } :: tl)
+                               | x -> x)))
+
+(** val parse_attrs : bytes -> attrs res **)
+
+let parse_attrs b =
+  parse_attrs_f (S (length b)) b
 
 (** val add0 : z -> bytes -> attrs -> attrs **)
 
@@ -1173,6 +1429,48 @@ let enc_len l =
 type packet = { code : z; ident : n; auth : bytes; secret : bytes;
                 pattrs : attrs }
 
+(** val parse : bytes -> bytes -> packet res **)
+
+let parse b sec =
+  if holds (gd g_Parse O) (zlen b)
+  then Err e_short
+  else (match b with
+        | [] -> Panic
+        | c :: l ->
+          (match l with
+           | [] -> Panic
+           | i :: l0 ->
+             (match l0 with
+              | [] -> Panic
+              | l1 :: l3 ->
+                (match l3 with
+                 | [] -> Panic
+                 | l2 :: rest ->
+                   let len = Z.of_N (be_dec (l1 :: (l2 :: []))) in
+                   if (||)
+                        ((||) (holds (gd g_Parse (S O)) len)
+                          (holds (gd g_Parse (S (S O))) len))
+                        (Z.ltb (zlen b) len)
+                   then Err e_badlen
+                   else let n0 = Z.to_nat len in
+                        if (||)
+                             (Nat.ltb n0 (S (S (S (S (S (S (S (S (S (S (S (S
+                               (S (S (S (S (S (S (S (S O)))))))))))))))))))))
+                             (Nat.ltb (length b) n0)
+                        then Panic
+                        else (match parse_attrs
+                                      (skipn (S (S (S (S (S (S (S (S (S (S (S
+                                        (S (S (S (S (S (S (S (S (S
+                                        O)))))))))))))))))))) (firstn n0 b)) with
+                              | Ok at_ ->
+                                Ok { code = (Z.of_N c); ident = i; auth =
+                                  (firstn (S (S (S (S (S (S (S (S (S (S (S (S
+                                    (S (S (S (S O)))))))))))))))) rest);
+                                  secret = sec; pattrs = at_ }
+                              | Err e -> Err e
+                              | Panic -> Panic
+                              | OutOfFuel -> OutOfFuel)))))
+
 (** val marshal : packet -> bytes res **)
 
 let marshal p =
@@ -1200,6 +1498,103 @@ let marshal p =
   | Err e -> Err e
   | Panic -> Panic
   | OutOfFuel -> OutOfFuel
+
+(** val zeros16 : bytes **)
+
+let zeros16 =
+  repeat N0 (S (S (S (S (S (S (S (S (S (S (S (S (S (S (S (S O))))))))))))))))
+
+(** val put_auth : bytes -> bytes -> bytes **)
+
+let put_auth b h =
+  app (firstn (S (S (S (S O)))) b)
+    (app h
+      (skipn (S (S (S (S (S (S (S (S (S (S (S (S (S (S (S (S (S (S (S (S
+        O)))))))))))))))))))) b))
+
+(** val encode : (bytes -> bytes) -> packet -> bytes res **)
+
+let encode h p =
+  match marshal p with
+  | Ok b ->
+    if zmem p.code (sw sW_Packet_Encode O O)
+    then Ok b
+    else if zmem p.code (sw sW_Packet_Encode O (S O))
+         then let a =
+                if zmem p.code (sw sW_Packet_Encode (S O) O)
+                then zeros16
+                else p.auth
+              in
+              Ok
+              (put_auth b
+                (h
+                  (app (firstn (S (S (S (S O)))) b)
+                    (app a
+                      (app
+                        (skipn (S (S (S (S (S (S (S (S (S (S (S (S (S (S (S
+                          (S (S (S (S (S O)))))))))))))))))))) b) p.secret)))))
+         else Err e_unknown_code
+  | x -> x
+
+(** val is_authentic_response :
+    (bytes -> bytes) -> bytes -> bytes -> bytes -> bool **)
+
+let is_authentic_response h response0 request sec =
+  if (||)
+       ((||) (holds (gd g_IsAuthenticResponse O) (zlen response0))
+         (holds (gd g_IsAuthenticResponse (S O)) (zlen request)))
+       (holds (gd g_IsAuthenticResponse (S (S O))) (zlen sec))
+  then false
+  else beq
+         (h
+           (app (firstn (S (S (S (S O)))) response0)
+             (app
+               (firstn (S (S (S (S (S (S (S (S (S (S (S (S (S (S (S (S
+                 O)))))))))))))))) (skipn (S (S (S (S O)))) request))
+               (app
+                 (skipn (S (S (S (S (S (S (S (S (S (S (S (S (S (S (S (S (S (S
+                   (S (S O)))))))))))))))))))) response0) sec))))
+         (firstn (S (S (S (S (S (S (S (S (S (S (S (S (S (S (S (S
+           O)))))))))))))))) (skipn (S (S (S (S O)))) response0))
+
+(** val is_authentic_request : (bytes -> bytes) -> bytes -> bytes -> bool **)
+
+let is_authentic_request h request sec =
+  if (||) (holds (gd g_IsAuthenticRequest O) (zlen request))
+       (holds (gd g_IsAuthenticRequest (S O)) (zlen sec))
+  then false
+  else (match request with
+        | [] -> false
+        | c :: _ ->
+          if zmem (Z.of_N c) (sw sW_IsAuthenticRequest O O)
+          then true
+          else if zmem (Z.of_N c) (sw sW_IsAuthenticRequest O (S O))
+               then beq
+                      (h
+                        (app (firstn (S (S (S (S O)))) request)
+                          (app zeros16
+                            (app
+                              (skipn (S (S (S (S (S (S (S (S (S (S (S (S (S
+                                (S (S (S (S (S (S (S O))))))))))))))))))))
+                                request) sec))))
+                      (firstn (S (S (S (S (S (S (S (S (S (S (S (S (S (S (S (S
+                        O)))))))))))))))) (skipn (S (S (S (S O)))) request))
+               else false)
+
+(** val response : packet -> z -> packet **)
+
+let response p c =
+  { code = c; ident = p.ident; auth = p.auth; secret = p.secret; pattrs = [] }
+
+(** val new_packet : z -> bytes -> bytes -> packet res **)
+
+let new_packet c sec = function
+| [] -> Panic
+| i :: rest ->
+  if Nat.eqb (length rest) (S (S (S (S (S (S (S (S (S (S (S (S (S (S (S (S
+       O))))))))))))))))
+  then Ok { code = c; ident = i; auth = rest; secret = sec; pattrs = [] }
+  else Panic
 
 (** val is_key : z -> avp -> bool **)
 
@@ -1268,6 +1663,602 @@ let spec_step l = function
 | ODel k -> ((spec_del k l), None)
 | OGet k -> (l, (Some (spec_lookup k l)))
 | OLookup k -> (l, (Some (spec_lookup k l)))
+
+(** val length_field : bytes -> nat **)
+
+let length_field b =
+  N.to_nat (be_dec (firstn (S (S O)) (skipn (S (S O)) b)))
+
+(** val spec_tlv_dec_f : nat -> bytes -> attrs res **)
+
+let rec spec_tlv_dec_f fuel b =
+  match fuel with
+  | O -> OutOfFuel
+  | S f ->
+    (match b with
+     | [] -> Ok []
+     | t :: l0 ->
+       (match l0 with
+        | [] -> Err e_attr_short
+        | l :: _ ->
+          let len = N.to_nat l in
+          if (||) ((||) (Nat.ltb (length b) len) (Nat.ltb len (S (S O))))
+               (Nat.ltb (S (S (S (S (S (S (S (S (S (S (S (S (S (S (S (S (S (S
+                 (S (S (S (S (S (S (S (S (S (S (S (S (S (S (S (S (S (S (S (S
+                 (S (S (S (S (S (S (S (S (S (S (S (S (S (S (S (S (S (S (S (S
+                 (S (S (S (S (S (S (S (S (S (S (S (S (S (S (S (S (S (S (S (S
+                 (S (S (S (S (S (S (S (S (S (S (S (S (S (S (S (S (S (S (S (S
+                 (S (S (S (S (S (S (S (S (S (S (S (S (S (S (S (S (S (S (S (S
+                 (S (S (S (S (S (S (S (S (S (S (S (S (S (S (S (S (S (S (S (S
+                 (S (S (S (S (S (S (S (S (S (S (S (S (S (S (S (S (S (S (S (S
+                 (S (S (S (S (S (S (S (S (S (S (S (S (S (S (S (S (S (S (S (S
+                 (S (S (S (S (S (S (S (S (S (S (S (S (S (S (S (S (S (S (S (S
+                 (S (S (S (S (S (S (S (S (S (S (S (S (S (S (S (S (S (S (S (S
+                 (S (S (S (S (S (S (S (S (S (S (S (S (S (S (S (S (S (S (S (S
+                 (S (S (S (S (S (S (S (S (S (S (S (S (S (S (S (S (S
+                 O)))))))))))))))))))))))))))))))))))))))))))))))))))))))))))))))))))))))))))))))))))))))))))))))))))))))))))))))))))))))))))))))))))))))))))))))))))))))))))))))))))))))))))))))))))))))))))))))))))))))))))))))))))))))))))))))))))))))))))))))))))))))))))))))
+                 len)
+          then Err e_attr_len
+          else (match spec_tlv_dec_f f (skipn len b) with
+                | Ok tl ->
+                  Ok ({ atype = (Z.of_N t); aval =
+                    (skipn (S (S O)) (firstn len b)) } :: tl)
+                | x -> x)))
+
+(** val spec_tlv_dec : bytes -> attrs res **)
+
+let spec_tlv_dec b =
+  spec_tlv_dec_f (S (length b)) b
+
+(** val spec_parse :
+    bytes -> bytes -> ((((z * n) * bytes) * bytes) * attrs) res **)
+
+let spec_parse b s =
+  if Nat.ltb (length b) (S (S (S (S (S (S (S (S (S (S (S (S (S (S (S (S (S (S
+       (S (S O))))))))))))))))))))
+  then Err e_short
+  else let len = length_field b in
+       if (||)
+            ((||)
+              (Nat.ltb len (S (S (S (S (S (S (S (S (S (S (S (S (S (S (S (S (S
+                (S (S (S O)))))))))))))))))))))
+              (Nat.ltb (S (S (S (S (S (S (S (S (S (S (S (S (S (S (S (S (S (S
+                (S (S (S (S (S (S (S (S (S (S (S (S (S (S (S (S (S (S (S (S
+                (S (S (S (S (S (S (S (S (S (S (S (S (S (S (S (S (S (S (S (S
+                (S (S (S (S (S (S (S (S (S (S (S (S (S (S (S (S (S (S (S (S
+                (S (S (S (S (S (S (S (S (S (S (S (S (S (S (S (S (S (S (S (S
+                (S (S (S (S (S (S (S (S (S (S (S (S (S (S (S (S (S (S (S (S
+                (S (S (S (S (S (S (S (S (S (S (S (S (S (S (S (S (S (S (S (S
+                (S (S (S (S (S (S (S (S (S (S (S (S (S (S (S (S (S (S (S (S
+                (S (S (S (S (S (S (S (S (S (S (S (S (S (S (S (S (S (S (S (S
+                (S (S (S (S (S (S (S (S (S (S (S (S (S (S (S (S (S (S (S (S
+                (S (S (S (S (S (S (S (S (S (S (S (S (S (S (S (S (S (S (S (S
+                (S (S (S (S (S (S (S (S (S (S (S (S (S (S (S (S (S (S (S (S
+                (S (S (S (S (S (S (S (S (S (S (S (S (S (S (S (S (S (S (S (S
+                (S (S (S (S (S (S (S (S (S (S (S (S (S (S (S (S (S (S (S (S
+                (S (S (S (S (S (S (S (S (S (S (S (S (S (S (S (S (S (S (S (S
+                (S (S (S (S (S (S (S (S (S (S (S (S (S (S (S (S (S (S (S (S
+                (S (S (S (S (S (S (S (S (S (S (S (S (S (S (S (S (S (S (S (S
+                (S (S (S (S (S (S (S (S (S (S (S (S (S (S (S (S (S (S (S (S
+                (S (S (S (S (S (S (S (S (S (S (S (S (S (S (S (S (S (S (S (S
+                (S (S (S (S (S (S (S (S (S (S (S (S (S (S (S (S (S (S (S (S
+                (S (S (S (S (S (S (S (S (S (S (S (S (S (S (S (S (S (S (S (S
+                (S (S (S (S (S (S (S (S (S (S (S (S (S (S (S (S (S (S (S (S
+                (S (S (S (S (S (S (S (S (S (S (S (S (S (S (S (S (S (S (S (S
+                (S (S (S (S (S (S (S (S (S (S (S (S (S (S (S (S (S (S (S (S
+                (S (S (S (S (S (S (S (S (S (S (S (S (S (S (S (S (S (S (S (S
+                (S (S (S (S (S (S (S (S (S (S (S (S (S (S (S (S (S (S (S (S
+                (S (S (S (S (S (S (S (S (S (S (S (S (S (S (S (S (S (S (S (S
+                (S (S (S (S (S (S (S (S (S (S (S (S (S (S (S (S (S (S (S (S
+                (S (S (S (S (S (S (S (S (S (S (S (S (S (S (S (S (S (S (S (S
+                (S (S (S (S (S (S (S (S (S (S (S (S (S (S (S (S (S (S (S (S
+                (S (S (S (S (S (S (S (S (S (S (S (S (S (S (S (S (S (S (S (S
+                (S (S (S (S (S (S (S (S (S (S (S (S (S (S (S (S (S (S (S (S
+                (S (S (S (S (S (S (S (S (S (S (S (S (S (S (S (S (S (S (S (S
+                (S (S (S (S (S (S (S (S (S (S (S (S (S (S (S (S (S (S (S (S
+                (S (S (S (S (S (S (S (S (S (S (S (S (S (S (S (S (S (S (S (S
+                (S (S (S (S (S (S (S (S (S (S (S (S (S (S (S (S (S (S (S (S
+                (S (S (S (S (S (S (S (S (S (S (S (S (S (S (S (S (S (S (S (S
+                (S (S (S (S (S (S (S (S (S (S (S (S (S (S (S (S (S (S (S (S
+                (S (S (S (S (S (S (S (S (S (S (S (S (S (S (S (S (S (S (S (S
+                (S (S (S (S (S (S (S (S (S (S (S (S (S (S (S (S (S (S (S (S
+                (S (S (S (S (S (S (S (S (S (S (S (S (S (S (S (S (S (S (S (S
+                (S (S (S (S (S (S (S (S (S (S (S (S (S (S (S (S (S (S (S (S
+                (S (S (S (S (S (S (S (S (S (S (S (S (S (S (S (S (S (S (S (S
+                (S (S (S (S (S (S (S (S (S (S (S (S (S (S (S (S (S (S (S (S
+                (S (S (S (S (S (S (S (S (S (S (S (S (S (S (S (S (S (S (S (S
+                (S (S (S (S (S (S (S (S (S (S (S (S (S (S (S (S (S (S (S (S
+                (S (S (S (S (S (S (S (S (S (S (S (S (S (S (S (S (S (S (S (S
+                (S (S (S (S (S (S (S (S (S (S (S (S (S (S (S (S (S (S (S (S
+                (S (S (S (S (S (S (S (S (S (S (S (S (S (S (S (S (S (S (S (S
+                (S (S (S (S (S (S (S (S (S (S (S (S (S (S (S (S (S (S (S (S
+                (S (S (S (S (S (S (S (S (S (S (S (S (S (S (S (S (S (S (S (S
+                (S (S (S (S (S (S (S (S (S (S (S (S (S (S (S (S (S (S (S (S
+                (S (S (S (S (S (S (S (S (S (S (S (S (S (S (S (S (S (S (S (S
+                (S (S (S (S (S (S (S (S (S (S (S (S (S (S (S (S (S (S (S (S
+                (S (S (S (S (S (S (S (S (S (S (S (S (S (S (S (S (S (S (S (S
+                (S (S (S (S (S (S (S (S (S (S (S (S (S (S (S (S (S (S (S (S
+                (S (S (S (S (S (S (S (S (S (S (S (S (S (S (S (S (S (S (S (S
+                (S (S (S (S (S (S (S (S (S (S (S (S (S (S (S (S (S (S (S (S
+                (S (S (S (S (S (S (S (S (S (S (S (S (S (S (S (S (S (S (S (S
+                (S (S (S (S (S (S (S (S (S (S (S (S (S (S (S (S (S (S (S (S
+                (S (S (S (S (S (S (S (S (S (S (S (S (S (S (S (S (S (S (S (S
+                (S (S (S (S (S (S (S (S (S (S (S (S (S (S (S (S (S (S (S (S
+                (S (S (S (S (S (S (S (S (S (S (S (S (S (S (S (S (S (S (S (S
+                (S (S (S (S (S (S (S (S (S (S (S (S (S (S (S (S (S (S (S (S
+                (S (S (S (S (S (S (S (S (S (S (S (S (S (S (S (S (S (S (S (S
+                (S (S (S (S (S (S (S (S (S (S (S (S (S (S (S (S (S (S (S (S
+                (S (S (S (S (S (S (S (S (S (S (S (S (S (S (S (S (S (S (S (S
+                (S (S (S (S (S (S (S (S (S (S (S (S (S (S (S (S (S (S (S (S
+                (S (S (S (S (S (S (S (S (S (S (S (S (S (S (S (S (S (S (S (S
+                (S (S (S (S (S (S (S (S (S (S (S (S (S (S (S (S (S (S (S (S
+                (S (S (S (S (S (S (S (S (S (S (S (S (S (S (S (S (S (S (S (S
+                (S (S (S (S (S (S (S (S (S (S (S (S (S (S (S (S (S (S (S (S
+                (S (S (S (S (S (S (S (S (S (S (S (S (S (S (S (S (S (S (S (S
+                (S (S (S (S (S (S (S (S (S (S (S (S (S (S (S (S (S (S (S (S
+                (S (S (S (S (S (S (S (S (S (S (S (S (S (S (S (S (S (S (S (S
+                (S (S (S (S (S (S (S (S (S (S (S (S (S (S (S (S (S (S (S (S
+                (S (S (S (S (S (S (S (S (S (S (S (S (S (S (S (S (S (S (S (S
+                (S (S (S (S (S (S (S (S (S (S (S (S (S (S (S (S (S (S (S (S
+                (S (S (S (S (S (S (S (S (S (S (S (S (S (S (S (S (S (S (S (S
+                (S (S (S (S (S (S (S (S (S (S (S (S (S (S (S (S (S (S (S (S
+                (S (S (S (S (S (S (S (S (S (S (S (S (S (S (S (S (S (S (S (S
+                (S (S (S (S (S (S (S (S (S (S (S (S (S (S (S (S (S (S (S (S
+                (S (S (S (S (S (S (S (S (S (S (S (S (S (S (S (S (S (S (S (S
+                (S (S (S (S (S (S (S (S (S (S (S (S (S (S (S (S (S (S (S (S
+                (S (S (S (S (S (S (S (S (S (S (S (S (S (S (S (S (S (S (S (S
+                (S (S (S (S (S (S (S (S (S (S (S (S (S (S (S (S (S (S (S (S
+                (S (S (S (S (S (S (S (S (S (S (S (S (S (S (S (S (S (S (S (S
+                (S (S (S (S (S (S (S (S (S (S (S (S (S (S (S (S (S (S (S (S
+                (S (S (S (S (S (S (S (S (S (S (S (S (S (S (S (S (S (S (S (S
+                (S (S (S (S (S (S (S (S (S (S (S (S (S (S (S (S (S (S (S (S
+                (S (S (S (S (S (S (S (S (S (S (S (S (S (S (S (S (S (S (S (S
+                (S (S (S (S (S (S (S (S (S (S (S (S (S (S (S (S (S (S (S (S
+                (S (S (S (S (S (S (S (S (S (S (S (S (S (S (S (S (S (S (S (S
+                (S (S (S (S (S (S (S (S (S (S (S (S (S (S (S (S (S (S (S (S
+                (S (S (S (S (S (S (S (S (S (S (S (S (S (S (S (S (S (S (S (S
+                (S (S (S (S (S (S (S (S (S (S (S (S (S (S (S (S (S (S (S (S
+                (S (S (S (S (S (S (S (S (S (S (S (S (S (S (S (S (S (S (S (S
+                (S (S (S (S (S (S (S (S (S (S (S (S (S (S (S (S (S (S (S (S
+                (S (S (S (S (S (S (S (S (S (S (S (S (S (S (S (S (S (S (S (S
+                (S (S (S (S (S (S (S (S (S (S (S (S (S (S (S (S (S (S (S (S
+                (S (S (S (S (S (S (S (S (S (S (S (S (S (S (S (S (S (S (S (S
+                (S (S (S (S (S (S (S (S (S (S (S (S (S (S (S (S (S (S (S (S
+                (S (S (S (S (S (S (S (S (S (S (S (S (S (S (S (S (S (S (S (S
+                (S (S (S (S (S (S (S (S (S (S (S (S (S (S (S (S (S (S (S (S
+                (S (S (S (S (S (S (S (S (S (S (S (S (S (S (S (S (S (S (S (S
+                (S (S (S (S (S (S (S (S (S (S (S (S (S (S (S (S (S (S (S (S
+                (S (S (S (S (S (S (S (S (S (S (S (S (S (S (S (S (S (S (S (S
+                (S (S (S (S (S (S (S (S (S (S (S (S (S (S (S (S (S (S (S (S
+                (S (S (S (S (S (S (S (S (S (S (S (S (S (S (S (S (S (S (S (S
+                (S (S (S (S (S (S (S (S (S (S (S (S (S (S (S (S (S (S (S (S
+                (S (S (S (S (S (S (S (S (S (S (S (S (S (S (S (S (S (S (S (S
+                (S (S (S (S (S (S (S (S (S (S (S (S (S (S (S (S (S (S (S (S
+                (S (S (S (S (S (S (S (S (S (S (S (S (S (S (S (S (S (S (S (S
+                (S (S (S (S (S (S (S (S (S (S (S (S (S (S (S (S (S (S (S (S
+                (S (S (S (S (S (S (S (S (S (S (S (S (S (S (S (S (S (S (S (S
+                (S (S (S (S (S (S (S (S (S (S (S (S (S (S (S (S (S (S (S (S
+                (S (S (S (S (S (S (S (S (S (S (S (S (S (S (S (S (S (S (S (S
+                (S (S (S (S (S (S (S (S (S (S (S (S (S (S (S (S (S (S (S (S
+                (S (S (S (S (S (S (S (S (S (S (S (S (S (S (S (S (S (S (S (S
+                (S (S (S (S (S (S (S (S (S (S (S (S (S (S (S (S (S (S (S (S
+                (S (S (S (S (S (S (S (S (S (S (S (S (S (S (S (S (S (S (S (S
+                (S (S (S (S (S (S (S (S (S (S (S (S (S (S (S (S (S (S (S (S
+                (S (S (S (S (S (S (S (S (S (S (S (S (S (S (S (S (S (S (S (S
+                (S (S (S (S (S (S (S (S (S (S (S (S (S (S (S (S (S (S (S (S
+                (S (S (S (S (S (S (S (S (S (S (S (S (S (S (S (S (S (S (S (S
+                (S (S (S (S (S (S (S (S (S (S (S (S (S (S (S (S (S (S (S (S
+                (S (S (S (S (S (S (S (S (S (S (S (S (S (S (S (S (S (S (S (S
+                (S (S (S (S (S (S (S (S (S (S (S (S (S (S (S (S (S (S (S (S
+                (S (S (S (S (S (S (S (S (S (S (S (S (S (S (S (S (S (S (S (S
+                (S (S (S (S (S (S (S (S (S (S (S (S (S (S (S (S (S (S (S (S
+                (S (S (S (S (S (S (S (S (S (S (S (S (S (S (S (S (S (S (S (S
+                (S (S (S (S (S (S (S (S (S (S (S (S (S (S (S (S (S (S (S (S
+                (S (S (S (S (S (S (S (S (S (S (S (S (S (S (S (S (S (S (S (S
+                (S (S (S (S (S (S (S (S (S (S (S (S (S (S (S (S (S (S (S (S
+                (S (S (S (S (S (S (S (S (S (S (S (S (S (S (S (S (S (S (S (S
+                (S (S (S (S (S (S (S (S (S (S (S (S (S (S (S (S (S (S (S (S
+                (S (S (S (S (S (S (S (S (S (S (S (S (S (S (S (S (S (S (S (S
+                (S (S (S (S (S (S (S (S (S (S (S (S (S (S (S (S (S (S (S (S
+                (S (S (S (S (S (S (S (S (S (S (S (S (S (S (S (S (S (S (S (S
+                (S (S (S (S (S (S (S (S (S (S (S (S (S (S (S (S (S (S (S (S
+                (S (S (S (S (S (S (S (S (S (S (S (S (S (S (S (S (S (S (S (S
+                (S (S (S (S (S (S (S (S (S (S (S (S (S (S (S (S (S (S (S (S
+                (S (S (S (S (S (S (S (S (S (S (S (S (S (S (S (S (S (S (S (S
+                (S (S (S (S (S (S (S (S (S (S (S (S (S (S (S (S (S (S (S (S
+                (S (S (S (S (S (S (S (S (S (S (S (S (S (S (S (S (S (S (S (S
+                (S (S (S (S (S (S (S (S (S (S (S (S (S (S (S (S (S (S (S (S
+                (S (S (S (S (S (S (S (S (S (S (S (S (S (S (S (S (S (S (S (S
+                (S (S (S (S (S (S (S (S (S (S (S (S (S (S (S (S (S (S (S (S
+                (S (S (S (S (S (S (S (S (S (S (S (S (S (S (S (S (S (S (S (S
+                (S (S (S (S (S (S (S (S (S (S (S (S (S (S (S (S (S (S (S (S
+                (S (S (S (S (S (S (S (S (S (S (S (S (S (S (S (S (S (S (S (S
+                (S (S (S (S (S (S (S (S (S (S (S (S (S (S (S (S (S (S (S (S
+                (S (S (S (S (S (S (S (S (S (S (S (S (S (S (S (S (S (S (S (S
+                (S (S (S (S (S (S (S (S (S (S (S (S (S (S (S (S (S (S (S (S
+                (S (S (S (S (S (S (S (S (S (S (S (S (S (S (S (S (S (S (S (S
+                (S (S (S (S (S (S (S (S (S (S (S (S (S (S (S (S (S (S (S (S
+                (S (S (S (S (S (S (S (S (S (S (S (S (S (S (S (S (S (S (S (S
+                (S (S (S (S (S (S (S (S (S (S (S (S (S (S (S (S (S (S (S (S
+                (S (S (S (S (S (S (S (S (S (S (S (S (S (S (S (S (S (S (S (S
+                (S (S (S (S (S (S (S (S (S (S (S (S (S (S (S (S (S (S (S (S
+                (S (S (S (S (S (S (S (S (S (S (S (S (S (S (S (S (S (S (S (S
+                (S (S (S (S (S (S (S (S (S (S (S (S (S (S (S (S (S (S (S (S
+                (S (S (S (S (S (S (S (S (S (S (S (S (S (S (S (S (S (S (S (S
+                (S (S (S (S (S (S (S (S (S (S (S (S (S (S (S (S (S (S (S (S
+                (S (S (S (S (S (S (S (S (S (S (S (S (S (S (S (S (S (S (S (S
+                (S (S (S (S (S (S (S (S (S (S (S (S (S (S (S (S (S (S (S (S
+                (S (S (S (S (S (S (S (S (S (S (S (S (S (S (S (S (S (S (S (S
+                (S (S (S (S (S (S (S (S (S (S (S (S (S (S (S (S (S (S (S (S
+                (S (S (S (S (S (S (S (S (S (S (S (S (S (S (S (S (S (S (S (S
+                (S (S (S (S (S (S (S (S (S (S (S (S (S (S (S (S (S (S (S (S
+                (S (S (S (S (S (S (S (S (S (S (S (S (S (S (S (S (S (S (S (S
+                (S (S (S (S (S (S (S (S (S (S (S (S (S (S (S (S (S (S (S (S
+                (S (S (S (S (S (S (S (S (S (S (S (S (S (S (S (S (S (S (S (S
+                (S (S (S (S (S (S (S (S (S (S (S (S (S (S (S (S (S (S (S (S
+                (S (S (S (S (S (S (S (S (S (S (S (S (S (S (S (S (S (S (S (S
+                (S (S (S (S (S (S (S (S (S (S (S (S (S (S (S (S (S (S (S (S
+                (S (S (S (S (S (S (S (S (S (S (S (S (S (S (S (S (S (S (S (S
+                (S (S (S (S (S (S (S (S (S (S (S (S (S (S (S (S (S (S (S (S
+                (S (S (S (S (S (S (S (S (S (S (S (S (S (S (S (S (S (S (S (S
+                (S (S (S (S (S (S (S (S (S (S (S (S (S (S (S (S (S (S (S (S
+                (S (S (S (S (S (S (S (S (S (S (S (S (S (S (S (S (S (S (S (S
+                (S (S (S (S (S (S (S (S (S (S (S (S (S (S (S (S (S (S (S (S
+                (S (S (S (S (S (S (S (S (S (S (S (S (S (S (S (S (S (S (S (S
+                (S (S (S (S (S (S (S (S (S (S (S (S (S (S (S (S (S (S (S (S
+                (S (S (S (S (S (S (S (S (S (S (S (S (S (S (S (S (S (S (S (S
+                (S (S (S (S (S (S (S (S (S (S (S (S (S (S (S (S (S (S (S (S
+                (S (S (S (S (S (S (S (S (S (S (S (S (S (S (S (S (S (S (S (S
+                (S (S (S (S (S (S (S (S (S (S (S (S (S (S (S (S (S (S (S (S
+                (S (S (S (S (S (S (S (S (S (S (S (S (S (S (S (S (S (S (S (S
+                (S (S (S (S (S (S (S (S (S (S (S (S (S (S (S (S (S (S (S (S
+                (S (S (S (S (S (S (S (S (S (S (S (S (S (S (S (S (S (S (S (S
+                (S (S (S (S (S (S (S (S (S (S (S (S (S (S (S (S (S (S (S (S
+                (S (S (S (S (S (S (S (S (S (S (S (S (S (S (S (S (S (S (S (S
+                (S (S (S (S (S (S (S (S (S (S (S (S (S (S (S (S (S (S (S (S
+                (S (S (S (S (S (S (S (S (S (S (S (S (S (S (S (S (S (S (S (S
+                (S (S (S (S (S (S (S (S (S (S (S (S (S (S (S (S (S (S (S (S
+                (S (S (S (S (S (S (S (S (S (S (S (S (S (S (S (S (S (S (S (S
+                (S (S (S (S (S (S (S (S (S (S (S (S (S (S (S (S (S (S (S (S
+                (S (S (S (S (S (S (S (S (S (S (S (S (S (S (S (S (S (S (S (S
+                (S (S (S (S (S (S (S (S (S (S (S (S (S (S (S (S (S (S (S (S
+                (S (S (S (S (S (S (S (S (S (S (S (S (S (S (S (S (S (S (S (S
+                (S (S (S (S (S (S (S (S (S (S (S (S (S (S (S (S (S (S (S (S
+                (S (S (S (S (S (S (S (S (S (S (S (S (S (S (S (S (S (S (S (S
+                (S (S (S (S (S (S (S (S (S (S (S (S (S (S (S (S (S (S (S (S
+                (S (S (S (S (S (S (S (S (S (S (S (S (S (S (S (S (S (S
+                O))))))))))))))))))))))))))))))))))))))))))))))))))))))))))))))))))))))))))))))))))))))))))))))))))))))))))))))))))))))))))))))))))))))))))))))))))))))))))))))))))))))))))))))))))))))))))))))))))))))))))))))))))))))))))))))))))))))))))))))))))))))))))))))))))))))))))))))))))))))))))))))))))))))))))))))))))))))))))))))))))))))))))))))))))))))))))))))))))))))))))))))))))))))))))))))))))))))))))))))))))))))))))))))))))))))))))))))))))))))))))))))))))))))))))))))))))))))))))))))))))))))))))))))))))))))))))))))))))))))))))))))))))))))))))))))))))))))))))))))))))))))))))))))))))))))))))))))))))))))))))))))))))))))))))))))))))))))))))))))))))))))))))))))))))))))))))))))))))))))))))))))))))))))))))))))))))))))))))))))))))))))))))))))))))))))))))))))))))))))))))))))))))))))))))))))))))))))))))))))))))))))))))))))))))))))))))))))))))))))))))))))))))))))))))))))))))))))))))))))))))))))))))))))))))))))))))))))))))))))))))))))))))))))))))))))))))))))))))))))))))))))))))))))))))))))))))))))))))))))))))))))))))))))))))))))))))))))))))))))))))))))))))))))))))))))))))))))))))))))))))))))))))))))))))))))))))))))))))))))))))))))))))))))))))))))))))))))))))))))))))))))))))))))))))))))))))))))))))))))))))))))))))))))))))))))))))))))))))))))))))))))))))))))))))))))))))))))))))))))))))))))))))))))))))))))))))))))))))))))))))))))))))))))))))))))))))))))))))))))))))))))))))))))))))))))))))))))))))))))))))))))))))))))))))))))))))))))))))))))))))))))))))))))))))))))))))))))))))))))))))))))))))))))))))))))))))))))))))))))))))))))))))))))))))))))))))))))))))))))))))))))))))))))))))))))))))))))))))))))))))))))))))))))))))))))))))))))))))))))))))))))))))))))))))))))))))))))))))))))))))))))))))))))))))))))))))))))))))))))))))))))))))))))))))))))))))))))))))))))))))))))))))))))))))))))))))))))))))))))))))))))))))))))))))))))))))))))))))))))))))))))))))))))))))))))))))))))))))))))))))))))))))))))))))))))))))))))))))))))))))))))))))))))))))))))))))))))))))))))))))))))))))))))))))))))))))))))))))))))))))))))))))))))))))))))))))))))))))))))))))))))))))))))))))))))))))))))))))))))))))))))))))))))))))))))))))))))))))))))))))))))))))))))))))))))))))))))))))))))))))))))))))))))))))))))))))))))))))))))))))))))))))))))))))))))))))))))))))))))))))))))))))))))))))))))))))))))))))))))))))))))))))))))))))))))))))))))))))))))))))))))))))))))))))))))))))))))))))))))))))))))))))))))))))))))))))))))))))))))))))))))))))))))))))))))))))))))))))))))))))))))))))))))))))))))))))))))))))))))))))))))))))))))))))))))))))))))))))))))))))))))))))))))))))))))))))))))))))))))))))))))))))))))))))))))))))))))))))))))))))))))))))))))))))))))))))))))))))))))))))))))))))))))))))))))))))))))))))))))))))))))))))))))))))))))))))))))))))))))))))))))))))))))))))))))))))))))))))))))))))))))))))))))))))))))))))))))))))))))))))))))))))))))))))))))))))))))))))))))))))))))))))))))))))))))))))))))))))))))))))))))))))))))))))))))))))))))))))))))))))))))))))))))))))))))))))))))))))))))))))))))))))))))))))))))))))))))))))))))))))))))))))))))))))))))))))))))))))))))))))))))))))))))))))))))))))))))))))))))))))))))))))))))))))))))))))))))))))))))))))))))))))))))))))))))))))))))))))))))))))))))))))))))))))))))))))))))))))))))))))))))))))))))))))))))))))))))))))))))))))))))))))))))))))))))))))))))))))))))))))))))))))))))))))))))))))))))))))))))))))))))))))))))))))))))))))))))))))))))))))))))))))))))))))))))))))))))))))))))))))))))))))))))))))))))))))))))))))))))))))))))))))))))))))))))))))))))))))))))))))))))))))))))))))))))))))))))))))))))))))))))))))))))))))))))))))))))))))))))))))))))))))))))))))))))))))))))))))))))))))))))))))))))))))))))))))))))))))))))))))))))))))))))))))))))))))))))))))))))))))))))))))))))))))))))))))))))))))))))))))))))))))))))))))))))))))))))))))))))))))))))))))))))))))))))))))))))))))))))))))))))))))))))))))))))))))))))))))))))))))))))))))))))))))))))))))))))))))))))))))))))))))))))))))))))))))))))))))))))))))))))))))))))))))))))))))))))))))))))))))))))))))))))))))))))))))))))))))))))))))))))))))))))))))))))))))))))))))))))))))))))))))))))))))))))))))))))))))))))))))))))))))))))))
+                len)) (Nat.ltb (length b) len)
+       then Err e_badlen
+       else (match spec_tlv_dec
+                     (firstn
+                       (sub len (S (S (S (S (S (S (S (S (S (S (S (S (S (S (S
+                         (S (S (S (S (S O)))))))))))))))))))))
+                       (skipn (S (S (S (S (S (S (S (S (S (S (S (S (S (S (S (S
+                         (S (S (S (S O)))))))))))))))))))) b)) with
+             | Ok at_ ->
+               Ok (((((Z.of_N (nth O b N0)), (nth (S O) b N0)),
+                 (firstn (S (S (S (S (S (S (S (S (S (S (S (S (S (S (S (S
+                   O)))))))))))))))) (skipn (S (S (S (S O)))) b))), s), at_)
+             | Err e -> Err e
+             | Panic -> Panic
+             | OutOfFuel -> OutOfFuel)
+
+(** val spec_value_fits : avp -> bool **)
+
+let spec_value_fits a =
+  (||) (negb (in_range a))
+    (Nat.leb (length a.aval) (S (S (S (S (S (S (S (S (S (S (S (S (S (S (S (S
+      (S (S (S (S (S (S (S (S (S (S (S (S (S (S (S (S (S (S (S (S (S (S (S (S
+      (S (S (S (S (S (S (S (S (S (S (S (S (S (S (S (S (S (S (S (S (S (S (S (S
+      (S (S (S (S (S (S (S (S (S (S (S (S (S (S (S (S (S (S (S (S (S (S (S (S
+      (S (S (S (S (S (S (S (S (S (S (S (S (S (S (S (S (S (S (S (S (S (S (S (S
+      (S (S (S (S (S (S (S (S (S (S (S (S (S (S (S (S (S (S (S (S (S (S (S (S
+      (S (S (S (S (S (S (S (S (S (S (S (S (S (S (S (S (S (S (S (S (S (S (S (S
+      (S (S (S (S (S (S (S (S (S (S (S (S (S (S (S (S (S (S (S (S (S (S (S (S
+      (S (S (S (S (S (S (S (S (S (S (S (S (S (S (S (S (S (S (S (S (S (S (S (S
+      (S (S (S (S (S (S (S (S (S (S (S (S (S (S (S (S (S (S (S (S (S (S (S (S
+      (S (S (S (S (S (S (S (S (S (S (S (S (S (S (S (S (S (S (S (S (S
+      O))))))))))))))))))))))))))))))))))))))))))))))))))))))))))))))))))))))))))))))))))))))))))))))))))))))))))))))))))))))))))))))))))))))))))))))))))))))))))))))))))))))))))))))))))))))))))))))))))))))))))))))))))))))))))))))))))))))))))))))))))))))))))))))
+
+(** val spec_marshal : z -> n -> bytes -> attrs -> bytes res **)
+
+let spec_marshal c i au l =
+  if forallb spec_value_fits l
+  then let w = spec_wire l in
+       if Nat.ltb (S (S (S (S (S (S (S (S (S (S (S (S (S (S (S (S (S (S (S (S
+            (S (S (S (S (S (S (S (S (S (S (S (S (S (S (S (S (S (S (S (S (S (S
+            (S (S (S (S (S (S (S (S (S (S (S (S (S (S (S (S (S (S (S (S (S (S
+            (S (S (S (S (S (S (S (S (S (S (S (S (S (S (S (S (S (S (S (S (S (S
+            (S (S (S (S (S (S (S (S (S (S (S (S (S (S (S (S (S (S (S (S (S (S
+            (S (S (S (S (S (S (S (S (S (S (S (S (S (S (S (S (S (S (S (S (S (S
+            (S (S (S (S (S (S (S (S (S (S (S (S (S (S (S (S (S (S (S (S (S (S
+            (S (S (S (S (S (S (S (S (S (S (S (S (S (S (S (S (S (S (S (S (S (S
+            (S (S (S (S (S (S (S (S (S (S (S (S (S (S (S (S (S (S (S (S (S (S
+            (S (S (S (S (S (S (S (S (S (S (S (S (S (S (S (S (S (S (S (S (S (S
+            (S (S (S (S (S (S (S (S (S (S (S (S (S (S (S (S (S (S (S (S (S (S
+            (S (S (S (S (S (S (S (S (S (S (S (S (S (S (S (S (S (S (S (S (S (S
+            (S (S (S (S (S (S (S (S (S (S (S (S (S (S (S (S (S (S (S (S (S (S
+            (S (S (S (S (S (S (S (S (S (S (S (S (S (S (S (S (S (S (S (S (S (S
+            (S (S (S (S (S (S (S (S (S (S (S (S (S (S (S (S (S (S (S (S (S (S
+            (S (S (S (S (S (S (S (S (S (S (S (S (S (S (S (S (S (S (S (S (S (S
+            (S (S (S (S (S (S (S (S (S (S (S (S (S (S (S (S (S (S (S (S (S (S
+            (S (S (S (S (S (S (S (S (S (S (S (S (S (S (S (S (S (S (S (S (S (S
+            (S (S (S (S (S (S (S (S (S (S (S (S (S (S (S (S (S (S (S (S (S (S
+            (S (S (S (S (S (S (S (S (S (S (S (S (S (S (S (S (S (S (S (S (S (S
+            (S (S (S (S (S (S (S (S (S (S (S (S (S (S (S (S (S (S (S (S (S (S
+            (S (S (S (S (S (S (S (S (S (S (S (S (S (S (S (S (S (S (S (S (S (S
+            (S (S (S (S (S (S (S (S (S (S (S (S (S (S (S (S (S (S (S (S (S (S
+            (S (S (S (S (S (S (S (S (S (S (S (S (S (S (S (S (S (S (S (S (S (S
+            (S (S (S (S (S (S (S (S (S (S (S (S (S (S (S (S (S (S (S (S (S (S
+            (S (S (S (S (S (S (S (S (S (S (S (S (S (S (S (S (S (S (S (S (S (S
+            (S (S (S (S (S (S (S (S (S (S (S (S (S (S (S (S (S (S (S (S (S (S
+            (S (S (S (S (S (S (S (S (S (S (S (S (S (S (S (S (S (S (S (S (S (S
+            (S (S (S (S (S (S (S (S (S (S (S (S (S (S (S (S (S (S (S (S (S (S
+            (S (S (S (S (S (S (S (S (S (S (S (S (S (S (S (S (S (S (S (S (S (S
+            (S (S (S (S (S (S (S (S (S (S (S (S (S (S (S (S (S (S (S (S (S (S
+            (S (S (S (S (S (S (S (S (S (S (S (S (S (S (S (S (S (S (S (S (S (S
+            (S (S (S (S (S (S (S (S (S (S (S (S (S (S (S (S (S (S (S (S (S (S
+            (S (S (S (S (S (S (S (S (S (S (S (S (S (S (S (S (S (S (S (S (S (S
+            (S (S (S (S (S (S (S (S (S (S (S (S (S (S (S (S (S (S (S (S (S (S
+            (S (S (S (S (S (S (S (S (S (S (S (S (S (S (S (S (S (S (S (S (S (S
+            (S (S (S (S (S (S (S (S (S (S (S (S (S (S (S (S (S (S (S (S (S (S
+            (S (S (S (S (S (S (S (S (S (S (S (S (S (S (S (S (S (S (S (S (S (S
+            (S (S (S (S (S (S (S (S (S (S (S (S (S (S (S (S (S (S (S (S (S (S
+            (S (S (S (S (S (S (S (S (S (S (S (S (S (S (S (S (S (S (S (S (S (S
+            (S (S (S (S (S (S (S (S (S (S (S (S (S (S (S (S (S (S (S (S (S (S
+            (S (S (S (S (S (S (S (S (S (S (S (S (S (S (S (S (S (S (S (S (S (S
+            (S (S (S (S (S (S (S (S (S (S (S (S (S (S (S (S (S (S (S (S (S (S
+            (S (S (S (S (S (S (S (S (S (S (S (S (S (S (S (S (S (S (S (S (S (S
+            (S (S (S (S (S (S (S (S (S (S (S (S (S (S (S (S (S (S (S (S (S (S
+            (S (S (S (S (S (S (S (S (S (S (S (S (S (S (S (S (S (S (S (S (S (S
+            (S (S (S (S (S (S (S (S (S (S (S (S (S (S (S (S (S (S (S (S (S (S
+            (S (S (S (S (S (S (S (S (S (S (S (S (S (S (S (S (S (S (S (S (S (S
+            (S (S (S (S (S (S (S (S (S (S (S (S (S (S (S (S (S (S (S (S (S (S
+            (S (S (S (S (S (S (S (S (S (S (S (S (S (S (S (S (S (S (S (S (S (S
+            (S (S (S (S (S (S (S (S (S (S (S (S (S (S (S (S (S (S (S (S (S (S
+            (S (S (S (S (S (S (S (S (S (S (S (S (S (S (S (S (S (S (S (S (S (S
+            (S (S (S (S (S (S (S (S (S (S (S (S (S (S (S (S (S (S (S (S (S (S
+            (S (S (S (S (S (S (S (S (S (S (S (S (S (S (S (S (S (S (S (S (S (S
+            (S (S (S (S (S (S (S (S (S (S (S (S (S (S (S (S (S (S (S (S (S (S
+            (S (S (S (S (S (S (S (S (S (S (S (S (S (S (S (S (S (S (S (S (S (S
+            (S (S (S (S (S (S (S (S (S (S (S (S (S (S (S (S (S (S (S (S (S (S
+            (S (S (S (S (S (S (S (S (S (S (S (S (S (S (S (S (S (S (S (S (S (S
+            (S (S (S (S (S (S (S (S (S (S (S (S (S (S (S (S (S (S (S (S (S (S
+            (S (S (S (S (S (S (S (S (S (S (S (S (S (S (S (S (S (S (S (S (S (S
+            (S (S (S (S (S (S (S (S (S (S (S (S (S (S (S (S (S (S (S (S (S (S
+            (S (S (S (S (S (S (S (S (S (S (S (S (S (S (S (S (S (S (S (S (S (S
+            (S (S (S (S (S (S (S (S (S (S (S (S (S (S (S (S (S (S (S (S (S (S
+            (S (S (S (S (S (S (S (S (S (S (S (S (S (S (S (S (S (S (S (S (S (S
+            (S (S (S (S (S (S (S (S (S (S (S (S (S (S (S (S (S (S (S (S (S (S
+            (S (S (S (S (S (S (S (S (S (S (S (S (S (S (S (S (S (S (S (S (S (S
+            (S (S (S (S (S (S (S (S (S (S (S (S (S (S (S (S (S (S (S (S (S (S
+            (S (S (S (S (S (S (S (S (S (S (S (S (S (S (S (S (S (S (S (S (S (S
+            (S (S (S (S (S (S (S (S (S (S (S (S (S (S (S (S (S (S (S (S (S (S
+            (S (S (S (S (S (S (S (S (S (S (S (S (S (S (S (S (S (S (S (S (S (S
+            (S (S (S (S (S (S (S (S (S (S (S (S (S (S (S (S (S (S (S (S (S (S
+            (S (S (S (S (S (S (S (S (S (S (S (S (S (S (S (S (S (S (S (S (S (S
+            (S (S (S (S (S (S (S (S (S (S (S (S (S (S (S (S (S (S (S (S (S (S
+            (S (S (S (S (S (S (S (S (S (S (S (S (S (S (S (S (S (S (S (S (S (S
+            (S (S (S (S (S (S (S (S (S (S (S (S (S (S (S (S (S (S (S (S (S (S
+            (S (S (S (S (S (S (S (S (S (S (S (S (S (S (S (S (S (S (S (S (S (S
+            (S (S (S (S (S (S (S (S (S (S (S (S (S (S (S (S (S (S (S (S (S (S
+            (S (S (S (S (S (S (S (S (S (S (S (S (S (S (S (S (S (S (S (S (S (S
+            (S (S (S (S (S (S (S (S (S (S (S (S (S (S (S (S (S (S (S (S (S (S
+            (S (S (S (S (S (S (S (S (S (S (S (S (S (S (S (S (S (S (S (S (S (S
+            (S (S (S (S (S (S (S (S (S (S (S (S (S (S (S (S (S (S (S (S (S (S
+            (S (S (S (S (S (S (S (S (S (S (S (S (S (S (S (S (S (S (S (S (S (S
+            (S (S (S (S (S (S (S (S (S (S (S (S (S (S (S (S (S (S (S (S (S (S
+            (S (S (S (S (S (S (S (S (S (S (S (S (S (S (S (S (S (S (S (S (S (S
+            (S (S (S (S (S (S (S (S (S (S (S (S (S (S (S (S (S (S (S (S (S (S
+            (S (S (S (S (S (S (S (S (S (S (S (S (S (S (S (S (S (S (S (S (S (S
+            (S (S (S (S (S (S (S (S (S (S (S (S (S (S (S (S (S (S (S (S (S (S
+            (S (S (S (S (S (S (S (S (S (S (S (S (S (S (S (S (S (S (S (S (S (S
+            (S (S (S (S (S (S (S (S (S (S (S (S (S (S (S (S (S (S (S (S (S (S
+            (S (S (S (S (S (S (S (S (S (S (S (S (S (S (S (S (S (S (S (S (S (S
+            (S (S (S (S (S (S (S (S (S (S (S (S (S (S (S (S (S (S (S (S (S (S
+            (S (S (S (S (S (S (S (S (S (S (S (S (S (S (S (S (S (S (S (S (S (S
+            (S (S (S (S (S (S (S (S (S (S (S (S (S (S (S (S (S (S (S (S (S (S
+            (S (S (S (S (S (S (S (S (S (S (S (S (S (S (S (S (S (S (S (S (S (S
+            (S (S (S (S (S (S (S (S (S (S (S (S (S (S (S (S (S (S (S (S (S (S
+            (S (S (S (S (S (S (S (S (S (S (S (S (S (S (S (S (S (S (S (S (S (S
+            (S (S (S (S (S (S (S (S (S (S (S (S (S (S (S (S (S (S (S (S (S (S
+            (S (S (S (S (S (S (S (S (S (S (S (S (S (S (S (S (S (S (S (S (S (S
+            (S (S (S (S (S (S (S (S (S (S (S (S (S (S (S (S (S (S (S (S (S (S
+            (S (S (S (S (S (S (S (S (S (S (S (S (S (S (S (S (S (S (S (S (S (S
+            (S (S (S (S (S (S (S (S (S (S (S (S (S (S (S (S (S (S (S (S (S (S
+            (S (S (S (S (S (S (S (S (S (S (S (S (S (S (S (S (S (S (S (S (S (S
+            (S (S (S (S (S (S (S (S (S (S (S (S (S (S (S (S (S (S (S (S (S (S
+            (S (S (S (S (S (S (S (S (S (S (S (S (S (S (S (S (S (S (S (S (S (S
+            (S (S (S (S (S (S (S (S (S (S (S (S (S (S (S (S (S (S (S (S (S (S
+            (S (S (S (S (S (S (S (S (S (S (S (S (S (S (S (S (S (S (S (S (S (S
+            (S (S (S (S (S (S (S (S (S (S (S (S (S (S (S (S (S (S (S (S (S (S
+            (S (S (S (S (S (S (S (S (S (S (S (S (S (S (S (S (S (S (S (S (S (S
+            (S (S (S (S (S (S (S (S (S (S (S (S (S (S (S (S (S (S (S (S (S (S
+            (S (S (S (S (S (S (S (S (S (S (S (S (S (S (S (S (S (S (S (S (S (S
+            (S (S (S (S (S (S (S (S (S (S (S (S (S (S (S (S (S (S (S (S (S (S
+            (S (S (S (S (S (S (S (S (S (S (S (S (S (S (S (S (S (S (S (S (S (S
+            (S (S (S (S (S (S (S (S (S (S (S (S (S (S (S (S (S (S (S (S (S (S
+            (S (S (S (S (S (S (S (S (S (S (S (S (S (S (S (S (S (S (S (S (S (S
+            (S (S (S (S (S (S (S (S (S (S (S (S (S (S (S (S (S (S (S (S (S (S
+            (S (S (S (S (S (S (S (S (S (S (S (S (S (S (S (S (S (S (S (S (S (S
+            (S (S (S (S (S (S (S (S (S (S (S (S (S (S (S (S (S (S (S (S (S (S
+            (S (S (S (S (S (S (S (S (S (S (S (S (S (S (S (S (S (S (S (S (S (S
+            (S (S (S (S (S (S (S (S (S (S (S (S (S (S (S (S (S (S (S (S (S (S
+            (S (S (S (S (S (S (S (S (S (S (S (S (S (S (S (S (S (S (S (S (S (S
+            (S (S (S (S (S (S (S (S (S (S (S (S (S (S (S (S (S (S (S (S (S (S
+            (S (S (S (S (S (S (S (S (S (S (S (S (S (S (S (S (S (S (S (S (S (S
+            (S (S (S (S (S (S (S (S (S (S (S (S (S (S (S (S (S (S (S (S (S (S
+            (S (S (S (S (S (S (S (S (S (S (S (S (S (S (S (S (S (S (S (S (S (S
+            (S (S (S (S (S (S (S (S (S (S (S (S (S (S (S (S (S (S (S (S (S (S
+            (S (S (S (S (S (S (S (S (S (S (S (S (S (S (S (S (S (S (S (S (S (S
+            (S (S (S (S (S (S (S (S (S (S (S (S (S (S (S (S (S (S (S (S (S (S
+            (S (S (S (S (S (S (S (S (S (S (S (S (S (S (S (S (S (S (S (S (S (S
+            (S (S (S (S (S (S (S (S (S (S (S (S (S (S (S (S (S (S (S (S (S (S
+            (S (S (S (S (S (S (S (S (S (S (S (S (S (S (S (S (S (S (S (S (S (S
+            (S (S (S (S (S (S (S (S (S (S (S (S (S (S (S (S (S (S (S (S (S (S
+            (S (S (S (S (S (S (S (S (S (S (S (S (S (S (S (S (S (S (S (S (S (S
+            (S (S (S (S (S (S (S (S (S (S (S (S (S (S (S (S (S (S (S (S (S (S
+            (S (S (S (S (S (S (S (S (S (S (S (S (S (S (S (S (S (S (S (S (S (S
+            (S (S (S (S (S (S (S (S (S (S (S (S (S (S (S (S (S (S (S (S (S (S
+            (S (S (S (S (S (S (S (S (S (S (S (S (S (S (S (S (S (S (S (S (S (S
+            (S (S (S (S (S (S (S (S (S (S (S (S (S (S (S (S (S (S (S (S (S (S
+            (S (S (S (S (S (S (S (S (S (S (S (S (S (S (S (S (S (S (S (S (S (S
+            (S (S (S (S (S (S (S (S (S (S (S (S (S (S (S (S (S (S (S (S (S (S
+            (S (S (S (S (S (S (S (S (S (S (S (S (S (S (S (S (S (S (S (S (S (S
+            (S (S (S (S (S (S (S (S (S (S (S (S (S (S (S (S (S (S (S (S (S (S
+            (S (S (S (S (S (S (S (S (S (S (S (S (S (S (S (S (S (S (S (S (S (S
+            (S (S (S (S (S (S (S (S (S (S (S (S (S (S (S (S (S (S (S (S (S (S
+            (S (S (S (S (S (S (S (S (S (S (S (S (S (S (S (S (S (S (S (S (S (S
+            (S (S (S (S (S (S (S (S (S (S (S (S (S (S (S (S (S (S (S (S (S (S
+            (S (S (S (S (S (S (S (S (S (S (S (S (S (S (S (S (S (S (S (S (S (S
+            (S (S (S (S (S (S (S (S (S (S (S (S (S (S (S (S (S (S (S (S (S (S
+            (S (S (S (S (S (S (S (S (S (S (S (S (S (S (S (S (S (S (S (S (S (S
+            (S (S (S (S (S (S (S (S (S (S (S (S (S (S (S (S (S (S (S (S (S (S
+            (S (S (S (S (S (S (S (S (S (S (S (S (S (S (S (S (S (S (S (S (S (S
+            (S (S (S (S (S (S (S (S (S (S (S (S (S (S (S (S (S (S (S (S (S (S
+            (S (S (S (S (S (S (S (S (S (S (S (S (S (S (S (S (S (S (S (S (S (S
+            (S (S (S (S (S (S (S (S (S (S (S (S (S (S (S (S (S (S (S (S (S (S
+            (S (S (S (S (S (S (S (S (S (S (S (S (S (S (S (S (S (S (S (S (S (S
+            (S (S (S (S (S (S (S (S (S (S (S (S (S (S (S (S (S (S (S (S (S (S
+            (S (S (S (S (S (S (S (S (S (S (S (S (S (S (S (S (S (S (S (S (S (S
+            (S (S (S (S (S (S (S (S (S (S (S (S (S (S (S (S (S (S (S (S (S (S
+            (S (S (S (S (S (S (S (S (S (S (S (S (S (S (S (S (S (S (S (S (S (S
+            (S (S (S (S (S (S (S (S (S (S (S (S (S (S (S (S (S (S (S (S (S (S
+            (S (S (S (S (S (S (S (S (S (S (S (S (S (S (S (S (S (S (S (S (S (S
+            (S (S (S (S (S (S (S (S (S (S (S (S (S (S (S (S (S (S (S (S (S (S
+            (S (S (S (S (S (S (S (S (S (S (S (S (S (S (S (S (S (S (S (S (S (S
+            (S (S (S (S (S (S (S (S (S (S (S (S (S (S (S (S (S (S (S (S (S (S
+            (S (S (S (S (S (S (S (S (S (S (S (S (S (S (S (S (S (S (S (S (S (S
+            (S (S (S (S (S (S (S (S (S (S (S (S (S (S (S (S (S (S (S (S (S (S
+            (S (S (S (S (S (S (S (S (S (S (S (S (S (S (S (S (S (S (S (S (S (S
+            (S (S (S (S (S (S (S (S (S (S (S (S (S (S (S (S (S (S (S (S (S (S
+            (S (S (S (S (S (S (S (S (S (S (S (S (S (S (S (S (S (S (S (S (S (S
+            (S (S (S (S (S (S (S (S (S (S (S (S (S (S (S (S (S (S (S (S (S (S
+            (S (S (S (S (S (S (S (S (S (S (S (S (S (S (S (S (S (S (S (S (S (S
+            (S (S (S (S (S (S (S (S (S (S (S (S (S (S (S (S (S (S (S (S (S (S
+            (S (S (S (S (S (S (S (S (S (S (S (S (S (S (S (S (S (S (S (S (S (S
+            (S (S (S (S (S (S (S (S (S (S (S (S (S (S (S (S (S (S (S (S (S (S
+            (S (S (S (S (S (S (S (S (S (S (S (S (S (S (S (S (S (S (S (S (S (S
+            (S (S (S (S (S (S (S (S (S (S (S (S (S (S (S (S (S (S (S (S (S (S
+            (S (S (S (S (S (S (S (S (S (S (S (S (S (S (S (S (S (S (S (S (S (S
+            (S (S (S (S (S (S (S (S (S (S (S (S (S (S (S (S (S (S (S (S (S (S
+            (S (S (S (S (S (S (S (S (S (S (S (S (S (S (S (S (S (S (S (S (S (S
+            (S (S (S (S (S (S (S (S (S (S (S (S (S (S (S (S (S (S (S (S (S (S
+            (S (S (S (S (S (S (S (S (S (S (S (S (S (S (S (S (S (S (S (S (S (S
+            (S (S (S (S (S (S (S (S (S (S (S (S (S (S (S (S (S (S (S (S (S (S
+            (S (S (S (S (S (S (S (S (S (S (S (S (S (S (S (S (S (S (S (S (S (S
+            (S (S (S (S (S (S (S (S (S (S (S (S (S (S (S (S (S (S (S (S (S (S
+            (S (S (S (S (S (S (S (S (S (S (S (S (S (S (S (S (S (S (S (S (S (S
+            (S (S (S (S (S (S (S (S (S (S (S (S (S (S (S (S (S (S (S (S (S (S
+            (S (S (S (S (S (S (S (S (S (S (S (S (S (S (S (S (S (S (S (S (S (S
+            (S (S (S (S (S (S
+            O))))))))))))))))))))))))))))))))))))))))))))))))))))))))))))))))))))))))))))))))))))))))))))))))))))))))))))))))))))))))))))))))))))))))))))))))))))))))))))))))))))))))))))))))))))))))))))))))))))))))))))))))))))))))))))))))))))))))))))))))))))))))))))))))))))))))))))))))))))))))))))))))))))))))))))))))))))))))))))))))))))))))))))))))))))))))))))))))))))))))))))))))))))))))))))))))))))))))))))))))))))))))))))))))))))))))))))))))))))))))))))))))))))))))))))))))))))))))))))))))))))))))))))))))))))))))))))))))))))))))))))))))))))))))))))))))))))))))))))))))))))))))))))))))))))))))))))))))))))))))))))))))))))))))))))))))))))))))))))))))))))))))))))))))))))))))))))))))))))))))))))))))))))))))))))))))))))))))))))))))))))))))))))))))))))))))))))))))))))))))))))))))))))))))))))))))))))))))))))))))))))))))))))))))))))))))))))))))))))))))))))))))))))))))))))))))))))))))))))))))))))))))))))))))))))))))))))))))))))))))))))))))))))))))))))))))))))))))))))))))))))))))))))))))))))))))))))))))))))))))))))))))))))))))))))))))))))))))))))))))))))))))))))))))))))))))))))))))))))))))))))))))))))))))))))))))))))))))))))))))))))))))))))))))))))))))))))))))))))))))))))))))))))))))))))))))))))))))))))))))))))))))))))))))))))))))))))))))))))))))))))))))))))))))))))))))))))))))))))))))))))))))))))))))))))))))))))))))))))))))))))))))))))))))))))))))))))))))))))))))))))))))))))))))))))))))))))))))))))))))))))))))))))))))))))))))))))))))))))))))))))))))))))))))))))))))))))))))))))))))))))))))))))))))))))))))))))))))))))))))))))))))))))))))))))))))))))))))))))))))))))))))))))))))))))))))))))))))))))))))))))))))))))))))))))))))))))))))))))))))))))))))))))))))))))))))))))))))))))))))))))))))))))))))))))))))))))))))))))))))))))))))))))))))))))))))))))))))))))))))))))))))))))))))))))))))))))))))))))))))))))))))))))))))))))))))))))))))))))))))))))))))))))))))))))))))))))))))))))))))))))))))))))))))))))))))))))))))))))))))))))))))))))))))))))))))))))))))))))))))))))))))))))))))))))))))))))))))))))))))))))))))))))))))))))))))))))))))))))))))))))))))))))))))))))))))))))))))))))))))))))))))))))))))))))))))))))))))))))))))))))))))))))))))))))))))))))))))))))))))))))))))))))))))))))))))))))))))))))))))))))))))))))))))))))))))))))))))))))))))))))))))))))))))))))))))))))))))))))))))))))))))))))))))))))))))))))))))))))))))))))))))))))))))))))))))))))))))))))))))))))))))))))))))))))))))))))))))))))))))))))))))))))))))))))))))))))))))))))))))))))))))))))))))))))))))))))))))))))))))))))))))))))))))))))))))))))))))))))))))))))))))))))))))))))))))))))))))))))))))))))))))))))))))))))))))))))))))))))))))))))))))))))))))))))))))))))))))))))))))))))))))))))))))))))))))))))))))))))))))))))))))))))))))))))))))))))))))))))))))))))))))))))))))))))))))))))))))))))))))))))))))))))))))))))))))))))))))))))))))))))))))))))))))))))))))))))))))))))))))))))))))))))))))))))))))))))))))))))))))))))))))))))))))))))))))))))))))))))))))))))))))))))))))))))))))))))))))))))))))))))))))))))))))))))))))))))))))))))))))))))))))))))))))))))))))))))))))))))))))))))))))))))))))))))))))))))))))))))))))))))))))))))))))))))))))))))))))))))))))))))))))))))))))))))))))))))))))))))))))))))))))))))))))))))))))))))))))))))))))))))))))))))))))))))))))))))))))))))))))))))))))))))))))))))))))))))))))))))))))))))))))))))))))))))))))))))))))))))))))))))))))))))))))))))))))))))))))))))))))))))))))))))))))))))))))))))))))))))))))))))))))))))))))))))))))))))))))))))))))))))))))))))))))))))))))))))))))))))))))))))))))))))))))))))))))))))))))))))))))))))))))))))))))))))))))))))))))))))))))))))))))))))))))))))))))))))))))))))))))))))))))))))))))))))))))))))))))))))))))))))))))))))))))))))))))))))))))))))))))))))))))))))))))))))))))))))))))))))))))))))))))))))))))))))))))))))))))))))))))))))))))))))))))))))))))))))))))))))))))))))))))))))))))))))))))))))))))))))))))))))))))))))))))))))))))))))))))))))))))))))))))))))))))))))))))))))))))))))))))))))))))))))))))))))))))))))))))))))))))))))))))))))))))))))))))))))))))))))))))))))))))))))))))))))))))))))))))))))))))))))))))))))))))))))))))))))))))))))))))))))))))))))))))
+            (add (S (S (S (S (S (S (S (S (S (S (S (S (S (S (S (S (S (S (S (S
+              O)))))))))))))))))))) (length w))
+       then Err e_pkt_big
+       else Ok
+              ((Z.to_N
+                 (Z.modulo c (Zpos (XO (XO (XO (XO (XO (XO (XO (XO
+                   XH))))))))))) :: (i :: (app
+                                            (be_enc (S (S O))
+                                              (N.of_nat
+                                                (add (S (S (S (S (S (S (S (S
+                                                  (S (S (S (S (S (S (S (S (S
+                                                  (S (S (S
+                                                  O))))))))))))))))))))
+                                                  (length w)))) (app au w))))
+  else Err e_attr_big
+
+(** val rfc_reply_codes : z list **)
+
+let rfc_reply_codes =
+  (Zpos (XO XH)) :: ((Zpos (XI XH)) :: ((Zpos (XI (XO XH))) :: ((Zpos (XI (XI
+    (XO XH)))) :: ((Zpos (XI (XO (XO (XI (XO XH)))))) :: ((Zpos (XO (XI (XO
+    (XI (XO XH)))))) :: ((Zpos (XO (XO (XI (XI (XO XH)))))) :: ((Zpos (XI (XO
+    (XI (XI (XO XH)))))) :: [])))))))
+
+(** val rfc_hashed_request_codes : z list **)
+
+let rfc_hashed_request_codes =
+  (Zpos (XO (XO XH))) :: ((Zpos (XO (XO (XO (XI (XO XH)))))) :: ((Zpos (XI
+    (XI (XO (XI (XO XH)))))) :: []))
+
+(** val rfc_verbatim_codes : z list **)
+
+let rfc_verbatim_codes =
+  (Zpos XH) :: ((Zpos (XO (XO (XI XH)))) :: [])
+
+(** val covered : bytes -> bytes -> bytes -> bytes **)
+
+let covered w a sec =
+  app (firstn (S (S (S (S O)))) w)
+    (app a
+      (app
+        (skipn (S (S (S (S (S (S (S (S (S (S (S (S (S (S (S (S (S (S (S (S
+          O)))))))))))))))))))) w) sec))
+
+(** val auth_field : bytes -> bytes **)
+
+let auth_field w =
+  firstn (S (S (S (S (S (S (S (S (S (S (S (S (S (S (S (S O))))))))))))))))
+    (skipn (S (S (S (S O)))) w)
+
+(** val zero16 : bytes **)
+
+let zero16 =
+  repeat N0 (S (S (S (S (S (S (S (S (S (S (S (S (S (S (S (S O))))))))))))))))
+
+(** val spec_put_auth : bytes -> bytes -> bytes **)
+
+let spec_put_auth b h =
+  app (firstn (S (S (S (S O)))) b)
+    (app h
+      (skipn (S (S (S (S (S (S (S (S (S (S (S (S (S (S (S (S (S (S (S (S
+        O)))))))))))))))))))) b))
+
+(** val spec_encode :
+    (bytes -> bytes) -> z -> n -> bytes -> bytes -> attrs -> bytes res **)
+
+let spec_encode h c i au sec l =
+  match spec_marshal c i au l with
+  | Ok w ->
+    if zmem c rfc_verbatim_codes
+    then Ok w
+    else if zmem c rfc_reply_codes
+         then Ok (spec_put_auth w (h (covered w au sec)))
+         else if zmem c rfc_hashed_request_codes
+              then Ok (spec_put_auth w (h (covered w zero16 sec)))
+              else Err e_unknown_code
+  | x -> x
+
+(** val spec_is_authentic_response :
+    (bytes -> bytes) -> bytes -> bytes -> bytes -> bool **)
+
+let spec_is_authentic_response h r q sec =
+  (&&)
+    ((&&)
+      ((&&)
+        (Nat.leb (S (S (S (S (S (S (S (S (S (S (S (S (S (S (S (S (S (S (S (S
+          O)))))))))))))))))))) (length r))
+        (Nat.leb (S (S (S (S (S (S (S (S (S (S (S (S (S (S (S (S (S (S (S (S
+          O)))))))))))))))))))) (length q))) (negb (Nat.eqb (length sec) O)))
+    (beq (auth_field r) (h (covered r (auth_field q) sec)))
+
+(** val spec_is_authentic_request :
+    (bytes -> bytes) -> bytes -> bytes -> bool **)
+
+let spec_is_authentic_request h q sec =
+  (&&)
+    ((&&)
+      (Nat.leb (S (S (S (S (S (S (S (S (S (S (S (S (S (S (S (S (S (S (S (S
+        O)))))))))))))))))))) (length q)) (negb (Nat.eqb (length sec) O)))
+    (match q with
+     | [] -> false
+     | c :: _ ->
+       (||) (zmem (Z.of_N c) rfc_verbatim_codes)
+         ((&&) (zmem (Z.of_N c) rfc_hashed_request_codes)
+           (beq (auth_field q) (h (covered q zero16 sec)))))
 
 (** val md5_mask32 : n **)
 
@@ -1734,12 +2725,26 @@ type tok =
 let s2b s =
   map n_of_ascii (list_ascii_of_string s)
 
+(** val name_is : bytes -> string -> bool **)
+
+let name_is name s =
+  beq name (s2b s)
+
 (** val t_res : 'a1 res -> ('a1 -> tok list) -> tok list **)
 
 let t_res r f =
   match r with
   | Ok a -> (TI Z0) :: (f a)
   | Err e -> (TI (Zpos XH)) :: ((TI (Z.of_N e)) :: [])
+  | Panic -> (TI (Zpos (XO XH))) :: []
+  | OutOfFuel -> (TI (Zpos (XI XH))) :: []
+
+(** val t_res_s : 'a1 res -> ('a1 -> tok list) -> tok list **)
+
+let t_res_s r f =
+  match r with
+  | Ok a -> (TI Z0) :: (f a)
+  | Err _ -> (TI (Zpos XH)) :: []
   | Panic -> (TI (Zpos (XO XH))) :: []
   | OutOfFuel -> (TI (Zpos (XI XH))) :: []
 
@@ -2065,9 +3070,8 @@ let s_after l =
                         (app
                           (repeat N0 (S (S (S (S (S (S (S (S (S (S (S (S (S
                             (S (S (S O))))))))))))))))) w)))) :: [])
-             else (TI (Zpos XH)) :: ((TI (Zpos (XO (XI XH)))) :: []))
-     else (TI (Zpos XH)) :: ((TI (Zpos (XI (XO XH)))) :: ((TI (Zpos
-            XH)) :: ((TI (Zpos (XI (XO XH)))) :: []))))
+             else (TI (Zpos XH)) :: [])
+     else (TI (Zpos XH)) :: ((TI (Zpos XH)) :: []))
 
 (** val s_trace : attrs -> op list -> tok list **)
 
@@ -2098,10 +3102,520 @@ let run_attrs spec bs = function
   let (zs'', bs'') = p in
   let os = take_ops zs'' bs'' in if spec then s_trace l os else m_trace l os
 
-(** val name_is : bytes -> string -> bool **)
+(** val t_packet : packet -> tok list **)
 
-let name_is name s =
-  beq name (s2b s)
+let t_packet p =
+  app ((TI p.code) :: ((TI (Z.of_N p.ident)) :: ((TB p.auth) :: ((TB
+    p.secret) :: [])))) (t_attrs p.pattrs)
+
+(** val t_tuple : ((((z * n) * bytes) * bytes) * attrs) -> tok list **)
+
+let t_tuple = function
+| (p, at_) ->
+  let (p0, s) = p in
+  let (p1, au) = p0 in
+  let (c, i) = p1 in
+  app ((TI c) :: ((TI (Z.of_N i)) :: ((TB au) :: ((TB s) :: []))))
+    (t_attrs at_)
+
+(** val arg_packet : bytes list -> z list -> packet **)
+
+let arg_packet bs = function
+| [] -> { code = Z0; ident = N0; auth = []; secret = []; pattrs = [] }
+| c :: l ->
+  (match l with
+   | [] -> { code = Z0; ident = N0; auth = []; secret = []; pattrs = [] }
+   | i :: l0 ->
+     (match l0 with
+      | [] -> { code = Z0; ident = N0; auth = []; secret = []; pattrs = [] }
+      | n0 :: zs' ->
+        (match bs with
+         | [] ->
+           { code = Z0; ident = N0; auth = []; secret = []; pattrs = [] }
+         | au :: l1 ->
+           (match l1 with
+            | [] ->
+              { code = Z0; ident = N0; auth = []; secret = []; pattrs = [] }
+            | sec :: bs' ->
+              let (l2, _) = take_attrs (Z.to_nat n0) zs' bs' in
+              { code = c; ident = (Z.to_N i); auth = au; secret = sec;
+              pattrs = l2 }))))
+
+(** val b1 : bytes list -> bytes **)
+
+let b1 bs =
+  nth O bs []
+
+(** val b2 : bytes list -> bytes **)
+
+let b2 bs =
+  nth (S O) bs []
+
+(** val b3 : bytes list -> bytes **)
+
+let b3 bs =
+  nth (S (S O)) bs []
+
+(** val z1 : z list -> z **)
+
+let z1 zs =
+  nth O zs Z0
+
+(** val tbool : bool -> tok list **)
+
+let tbool b =
+  (TI (if b then Zpos XH else Z0)) :: []
+
+(** val dispatch_c01 : bytes -> bytes list -> z list -> tok list option **)
+
+let dispatch_c01 name bs zs =
+  if name_is name (String ((Ascii (true, false, true, true, false, true,
+       true, false)), (String ((Ascii (false, true, true, true, false, true,
+       false, false)), (String ((Ascii (false, false, false, false, true,
+       true, true, false)), (String ((Ascii (true, false, false, false,
+       false, true, true, false)), (String ((Ascii (false, true, false,
+       false, true, true, true, false)), (String ((Ascii (true, true, false,
+       false, true, true, true, false)), (String ((Ascii (true, false, true,
+       false, false, true, true, false)), EmptyString))))))))))))))
+  then Some (t_res (parse (b1 bs) (b2 bs)) t_packet)
+  else if name_is name (String ((Ascii (true, true, false, false, true, true,
+            true, false)), (String ((Ascii (false, true, true, true, false,
+            true, false, false)), (String ((Ascii (false, false, false,
+            false, true, true, true, false)), (String ((Ascii (true, false,
+            false, false, false, true, true, false)), (String ((Ascii (false,
+            true, false, false, true, true, true, false)), (String ((Ascii
+            (true, true, false, false, true, true, true, false)), (String
+            ((Ascii (true, false, true, false, false, true, true, false)),
+            EmptyString))))))))))))))
+       then Some (t_res_s (spec_parse (b1 bs) (b2 bs)) t_tuple)
+       else if name_is name (String ((Ascii (true, false, true, true, false,
+                 true, true, false)), (String ((Ascii (false, true, true,
+                 true, false, true, false, false)), (String ((Ascii (false,
+                 false, false, false, true, true, true, false)), (String
+                 ((Ascii (true, false, false, false, false, true, true,
+                 false)), (String ((Ascii (false, true, false, false, true,
+                 true, true, false)), (String ((Ascii (true, true, false,
+                 false, true, true, true, false)), (String ((Ascii (true,
+                 false, true, false, false, true, true, false)), (String
+                 ((Ascii (true, true, true, true, true, false, true, false)),
+                 (String ((Ascii (true, false, false, false, false, true,
+                 true, false)), (String ((Ascii (false, false, true, false,
+                 true, true, true, false)), (String ((Ascii (false, false,
+                 true, false, true, true, true, false)), (String ((Ascii
+                 (false, true, false, false, true, true, true, false)),
+                 (String ((Ascii (true, true, false, false, true, true, true,
+                 false)), EmptyString))))))))))))))))))))))))))
+            then Some (t_res (parse_attrs (b1 bs)) t_attrs)
+            else if name_is name (String ((Ascii (true, true, false, false,
+                      true, true, true, false)), (String ((Ascii (false,
+                      true, true, true, false, true, false, false)), (String
+                      ((Ascii (false, false, false, false, true, true, true,
+                      false)), (String ((Ascii (true, false, false, false,
+                      false, true, true, false)), (String ((Ascii (false,
+                      true, false, false, true, true, true, false)), (String
+                      ((Ascii (true, true, false, false, true, true, true,
+                      false)), (String ((Ascii (true, false, true, false,
+                      false, true, true, false)), (String ((Ascii (true,
+                      true, true, true, true, false, true, false)), (String
+                      ((Ascii (true, false, false, false, false, true, true,
+                      false)), (String ((Ascii (false, false, true, false,
+                      true, true, true, false)), (String ((Ascii (false,
+                      false, true, false, true, true, true, false)), (String
+                      ((Ascii (false, true, false, false, true, true, true,
+                      false)), (String ((Ascii (true, true, false, false,
+                      true, true, true, false)),
+                      EmptyString))))))))))))))))))))))))))
+                 then Some (t_res_s (spec_tlv_dec (b1 bs)) t_attrs)
+                 else if name_is name (String ((Ascii (true, false, true,
+                           true, false, true, true, false)), (String ((Ascii
+                           (false, true, true, true, false, true, false,
+                           false)), (String ((Ascii (true, false, true, true,
+                           false, true, true, false)), (String ((Ascii (true,
+                           false, false, false, false, true, true, false)),
+                           (String ((Ascii (false, true, false, false, true,
+                           true, true, false)), (String ((Ascii (true, true,
+                           false, false, true, true, true, false)), (String
+                           ((Ascii (false, false, false, true, false, true,
+                           true, false)), (String ((Ascii (true, false,
+                           false, false, false, true, true, false)), (String
+                           ((Ascii (false, false, true, true, false, true,
+                           true, false)), EmptyString))))))))))))))))))
+                      then Some
+                             (t_res (marshal (arg_packet bs zs)) (fun b ->
+                               (TB b) :: []))
+                      else if name_is name (String ((Ascii (true, true,
+                                false, false, true, true, true, false)),
+                                (String ((Ascii (false, true, true, true,
+                                false, true, false, false)), (String ((Ascii
+                                (true, false, true, true, false, true, true,
+                                false)), (String ((Ascii (true, false, false,
+                                false, false, true, true, false)), (String
+                                ((Ascii (false, true, false, false, true,
+                                true, true, false)), (String ((Ascii (true,
+                                true, false, false, true, true, true,
+                                false)), (String ((Ascii (false, false,
+                                false, true, false, true, true, false)),
+                                (String ((Ascii (true, false, false, false,
+                                false, true, true, false)), (String ((Ascii
+                                (false, false, true, true, false, true, true,
+                                false)), EmptyString))))))))))))))))))
+                           then let p = arg_packet bs zs in
+                                Some
+                                (t_res_s
+                                  (spec_marshal p.code p.ident p.auth
+                                    p.pattrs) (fun b -> (TB b) :: []))
+                           else if name_is name (String ((Ascii (true, false,
+                                     true, true, false, true, true, false)),
+                                     (String ((Ascii (false, true, true,
+                                     true, false, true, false, false)),
+                                     (String ((Ascii (true, false, true,
+                                     false, false, true, true, false)),
+                                     (String ((Ascii (false, true, true,
+                                     true, false, true, true, false)),
+                                     (String ((Ascii (true, true, false,
+                                     false, false, true, true, false)),
+                                     (String ((Ascii (true, true, true, true,
+                                     false, true, true, false)), (String
+                                     ((Ascii (false, false, true, false,
+                                     false, true, true, false)), (String
+                                     ((Ascii (true, false, true, false,
+                                     false, true, true, false)),
+                                     EmptyString))))))))))))))))
+                                then Some
+                                       (t_res (encode md5 (arg_packet bs zs))
+                                         (fun b -> (TB b) :: []))
+                                else if name_is name (String ((Ascii (true,
+                                          true, false, false, true, true,
+                                          true, false)), (String ((Ascii
+                                          (false, true, true, true, false,
+                                          true, false, false)), (String
+                                          ((Ascii (true, false, true, false,
+                                          false, true, true, false)), (String
+                                          ((Ascii (false, true, true, true,
+                                          false, true, true, false)), (String
+                                          ((Ascii (true, true, false, false,
+                                          false, true, true, false)), (String
+                                          ((Ascii (true, true, true, true,
+                                          false, true, true, false)), (String
+                                          ((Ascii (false, false, true, false,
+                                          false, true, true, false)), (String
+                                          ((Ascii (true, false, true, false,
+                                          false, true, true, false)),
+                                          EmptyString))))))))))))))))
+                                     then let p = arg_packet bs zs in
+                                          Some
+                                          (t_res_s
+                                            (spec_encode md5 p.code p.ident
+                                              p.auth p.secret p.pattrs)
+                                            (fun b -> (TB b) :: []))
+                                     else if name_is name (String ((Ascii
+                                               (true, false, true, true,
+                                               false, true, true, false)),
+                                               (String ((Ascii (false, true,
+                                               true, true, false, true,
+                                               false, false)), (String
+                                               ((Ascii (true, false, false,
+                                               true, false, true, true,
+                                               false)), (String ((Ascii
+                                               (true, true, false, false,
+                                               true, true, true, false)),
+                                               (String ((Ascii (false, true,
+                                               false, false, true, true,
+                                               true, false)), (String ((Ascii
+                                               (true, false, true, false,
+                                               false, true, true, false)),
+                                               (String ((Ascii (true, true,
+                                               false, false, true, true,
+                                               true, false)), (String ((Ascii
+                                               (false, false, false, false,
+                                               true, true, true, false)),
+                                               EmptyString))))))))))))))))
+                                          then Some
+                                                 (tbool
+                                                   (is_authentic_response md5
+                                                     (b1 bs) (b2 bs) 
+                                                     (b3 bs)))
+                                          else if name_is name (String
+                                                    ((Ascii (true, true,
+                                                    false, false, true, true,
+                                                    true, false)), (String
+                                                    ((Ascii (false, true,
+                                                    true, true, false, true,
+                                                    false, false)), (String
+                                                    ((Ascii (true, false,
+                                                    false, true, false, true,
+                                                    true, false)), (String
+                                                    ((Ascii (true, true,
+                                                    false, false, true, true,
+                                                    true, false)), (String
+                                                    ((Ascii (false, true,
+                                                    false, false, true, true,
+                                                    true, false)), (String
+                                                    ((Ascii (true, false,
+                                                    true, false, false, true,
+                                                    true, false)), (String
+                                                    ((Ascii (true, true,
+                                                    false, false, true, true,
+                                                    true, false)), (String
+                                                    ((Ascii (false, false,
+                                                    false, false, true, true,
+                                                    true, false)),
+                                                    EmptyString))))))))))))))))
+                                               then Some
+                                                      (tbool
+                                                        (spec_is_authentic_response
+                                                          md5 (b1 bs) 
+                                                          (b2 bs) (b3 bs)))
+                                               else if name_is name (String
+                                                         ((Ascii (true,
+                                                         false, true, true,
+                                                         false, true, true,
+                                                         false)), (String
+                                                         ((Ascii (false,
+                                                         true, true, true,
+                                                         false, true, false,
+                                                         false)), (String
+                                                         ((Ascii (true,
+                                                         false, false, true,
+                                                         false, true, true,
+                                                         false)), (String
+                                                         ((Ascii (true, true,
+                                                         false, false, true,
+                                                         true, true, false)),
+                                                         (String ((Ascii
+                                                         (false, true, false,
+                                                         false, true, true,
+                                                         true, false)),
+                                                         (String ((Ascii
+                                                         (true, false, true,
+                                                         false, false, true,
+                                                         true, false)),
+                                                         (String ((Ascii
+                                                         (true, false, false,
+                                                         false, true, true,
+                                                         true, false)),
+                                                         EmptyString))))))))))))))
+                                                    then Some
+                                                           (tbool
+                                                             (is_authentic_request
+                                                               md5 (b1 bs)
+                                                               (b2 bs)))
+                                                    else if name_is name
+                                                              (String ((Ascii
+                                                              (true, true,
+                                                              false, false,
+                                                              true, true,
+                                                              true, false)),
+                                                              (String ((Ascii
+                                                              (false, true,
+                                                              true, true,
+                                                              false, true,
+                                                              false, false)),
+                                                              (String ((Ascii
+                                                              (true, false,
+                                                              false, true,
+                                                              false, true,
+                                                              true, false)),
+                                                              (String ((Ascii
+                                                              (true, true,
+                                                              false, false,
+                                                              true, true,
+                                                              true, false)),
+                                                              (String ((Ascii
+                                                              (false, true,
+                                                              false, false,
+                                                              true, true,
+                                                              true, false)),
+                                                              (String ((Ascii
+                                                              (true, false,
+                                                              true, false,
+                                                              false, true,
+                                                              true, false)),
+                                                              (String ((Ascii
+                                                              (true, false,
+                                                              false, false,
+                                                              true, true,
+                                                              true, false)),
+                                                              EmptyString))))))))))))))
+                                                         then Some
+                                                                (tbool
+                                                                  (spec_is_authentic_request
+                                                                    md5
+                                                                    (b1 bs)
+                                                                    (b2 bs)))
+                                                         else if name_is name
+                                                                   (String
+                                                                   ((Ascii
+                                                                   (true,
+                                                                   false,
+                                                                   true,
+                                                                   true,
+                                                                   false,
+                                                                   true,
+                                                                   true,
+                                                                   false)),
+                                                                   (String
+                                                                   ((Ascii
+                                                                   (false,
+                                                                   true,
+                                                                   true,
+                                                                   true,
+                                                                   false,
+                                                                   true,
+                                                                   false,
+                                                                   false)),
+                                                                   (String
+                                                                   ((Ascii
+                                                                   (false,
+                                                                   true,
+                                                                   true,
+                                                                   true,
+                                                                   false,
+                                                                   true,
+                                                                   true,
+                                                                   false)),
+                                                                   (String
+                                                                   ((Ascii
+                                                                   (true,
+                                                                   false,
+                                                                   true,
+                                                                   false,
+                                                                   false,
+                                                                   true,
+                                                                   true,
+                                                                   false)),
+                                                                   (String
+                                                                   ((Ascii
+                                                                   (true,
+                                                                   true,
+                                                                   true,
+                                                                   false,
+                                                                   true,
+                                                                   true,
+                                                                   true,
+                                                                   false)),
+                                                                   EmptyString))))))))))
+                                                              then Some
+                                                                    (t_res
+                                                                    (new_packet
+                                                                    (z1 zs)
+                                                                    (b1 bs)
+                                                                    (b2 bs))
+                                                                    t_packet)
+                                                              else if 
+                                                                    name_is
+                                                                    name
+                                                                    (String
+                                                                    ((Ascii
+                                                                    (true,
+                                                                    false,
+                                                                    true,
+                                                                    true,
+                                                                    false,
+                                                                    true,
+                                                                    true,
+                                                                    false)),
+                                                                    (String
+                                                                    ((Ascii
+                                                                    (false,
+                                                                    true,
+                                                                    true,
+                                                                    true,
+                                                                    false,
+                                                                    true,
+                                                                    false,
+                                                                    false)),
+                                                                    (String
+                                                                    ((Ascii
+                                                                    (false,
+                                                                    true,
+                                                                    false,
+                                                                    false,
+                                                                    true,
+                                                                    true,
+                                                                    true,
+                                                                    false)),
+                                                                    (String
+                                                                    ((Ascii
+                                                                    (true,
+                                                                    false,
+                                                                    true,
+                                                                    false,
+                                                                    false,
+                                                                    true,
+                                                                    true,
+                                                                    false)),
+                                                                    (String
+                                                                    ((Ascii
+                                                                    (true,
+                                                                    true,
+                                                                    false,
+                                                                    false,
+                                                                    true,
+                                                                    true,
+                                                                    true,
+                                                                    false)),
+                                                                    (String
+                                                                    ((Ascii
+                                                                    (false,
+                                                                    false,
+                                                                    false,
+                                                                    false,
+                                                                    true,
+                                                                    true,
+                                                                    true,
+                                                                    false)),
+                                                                    (String
+                                                                    ((Ascii
+                                                                    (true,
+                                                                    true,
+                                                                    true,
+                                                                    true,
+                                                                    false,
+                                                                    true,
+                                                                    true,
+                                                                    false)),
+                                                                    (String
+                                                                    ((Ascii
+                                                                    (false,
+                                                                    true,
+                                                                    true,
+                                                                    true,
+                                                                    false,
+                                                                    true,
+                                                                    true,
+                                                                    false)),
+                                                                    (String
+                                                                    ((Ascii
+                                                                    (true,
+                                                                    true,
+                                                                    false,
+                                                                    false,
+                                                                    true,
+                                                                    true,
+                                                                    true,
+                                                                    false)),
+                                                                    (String
+                                                                    ((Ascii
+                                                                    (true,
+                                                                    false,
+                                                                    true,
+                                                                    false,
+                                                                    false,
+                                                                    true,
+                                                                    true,
+                                                                    false)),
+                                                                    EmptyString))))))))))))))))))))
+                                                                   then 
+                                                                    Some
+                                                                    (t_packet
+                                                                    (response
+                                                                    (arg_packet
+                                                                    bs
+                                                                    (skipn (S
+                                                                    O) zs))
+                                                                    (z1 zs)))
+                                                                   else None
 
 (** val dispatch : bytes -> bytes list -> z list -> tok list **)
 
@@ -2141,4 +3655,6 @@ let dispatch name bs zs =
             then (match bs with
                   | [] -> []
                   | b :: _ -> (TB (md5 b)) :: [])
-            else (TI (Zneg (XI (XO (XO (XO (XO (XI XH)))))))) :: []
+            else (match dispatch_c01 name bs zs with
+                  | Some t -> t
+                  | None -> (TI (Zneg (XI (XO (XO (XO (XO (XI XH)))))))) :: [])
